@@ -1,6 +1,8 @@
 import DFV.Lemmas.C07Ex
 import DFV.Lemmas.C07Comp
 import DFV.Lemmas.C07SubsOk
+import DFV.Lemmas.C07Total
+import DFV.Lemmas.C07Ext
 /-!
 # C07 — sub-selection, padding and resampling keep every value at its physical position
 
@@ -18,6 +20,16 @@ boundary condition of the result mesh (`op_subs_bc`, `sel_plane_subs`, `sel_rang
 acceptance on meshes with subregions, composition laws and round trips (`sel_range_range`,
 `sel_plane_comm`, `getitem_getitem`, `pad_crop_roundtrip`, `resample_source_cell`, …) and further
 refusals.
+
+Third part (second round): refusals as equivalences (`sel_plane_ok_iff`, …), the composition laws
+stated on inputs only (`…_total`: acceptance of every intermediate step is part of the conclusion),
+the face exception of `sel_range_range` characterised exactly (`sel_range_range_face`), the invariant
+"subregions consist of whole cells" (`sel_plane_subs_aligned`, `sel_range_subs_aligned`), the padding
+modes at object level for all widths (`pad_wrap_pointwise`, …, `pad_crop_smaller`), extraction by name
+= extraction by the subregion's region, `region2slices` of arbitrary boxes, "any point of a cell"
+(`getitem_region_anypoint`, `sel_range_anypoint`), the closed-form resampling of the driver
+(`resample_fast_refines`) and requests at non-finite coordinates (`ExtRat`: `sel_nonfinite_rejected`,
+`sel_ext_ok_iff`, `point2index_ext`, `getitem_nonfinite_rejected`).
 -/
 namespace DFV.C07
 open DFV DFV.Mesh
@@ -2672,5 +2684,1546 @@ example : ∃ g h h', BoxIn f0.mesh box ∧ getItem f0 (.region box) = .ok g ∧
   exact ⟨g, h, g, box_in, hg, hb2, hh, hg⟩
 
 end NonVacuity
+
+/-! ## Second round: refusals as equivalences -/
+
+/-- Plane selection is accepted EXACTLY for the coordinates of the closed edge (rejected ⇔ outside or
+unknown axis), on every well-formed field whose subregions consist of whole cells: by the
+normalisation, by `Field.sel` (on a 1-d field the answer is the bare value) and — when there is an
+axis left — by `Mesh.sel`. -/
+theorem sel_plane_ok_iff (f : Fld) (hf : FldWF f) (hmeta : metaOk f = true)
+    (hsubs : ∀ p, p ∈ f.mesh.subs → ∃ k1 k2, SubAligned f.mesh p.2 k1 k2)
+    (dim : String) (x : Rat) :
+    ((∃ r, selConvert f.mesh dim (.point x) = .ok r) ↔
+      ∃ a, f.mesh.region.dim2index dim = .ok a ∧ f.mesh.region.lo a ≤ x ∧ x ≤ f.mesh.region.hi a) ∧
+    ((∃ out, selFld f dim (.point x) = .ok out) ↔
+      ∃ a, f.mesh.region.dim2index dim = .ok a ∧ f.mesh.region.lo a ≤ x ∧ x ≤ f.mesh.region.hi a) ∧
+    (2 ≤ f.mesh.ndim → ((∃ g, selMesh f.mesh dim (.point x) = .ok g) ↔
+      ∃ a, f.mesh.region.dim2index dim = .ok a ∧ f.mesh.region.lo a ≤ x ∧ x ≤ f.mesh.region.hi a)) := by
+  have hconv : (∃ r, selConvert f.mesh dim (.point x) = .ok r) ↔
+      ∃ a, f.mesh.region.dim2index dim = .ok a ∧ f.mesh.region.lo a ≤ x ∧ x ≤ f.mesh.region.hi a := by
+    constructor
+    · rintro ⟨⟨a, s⟩, hr⟩
+      obtain ⟨hd, h1, h2, _⟩ := selConvert_point_inv f.mesh hf.1 dim x a s hr
+      exact ⟨a, hd, h1, h2⟩
+    · rintro ⟨a, hd, h1, h2⟩
+      exact ⟨_, (selConvert_point f.mesh hf.1 dim a hd x h1 h2).1⟩
+  refine ⟨hconv, ?_, ?_⟩
+  · rw [← hconv]
+    constructor
+    · rintro ⟨out, ho⟩
+      unfold selFld at ho
+      cases hc : selConvert f.mesh dim (.point x) with
+      | error e => rw [hc] at ho; cases ho
+      | ok r => exact ⟨r, rfl⟩
+    · intro hr
+      obtain ⟨a, hd, h1, h2⟩ := hconv.mp hr
+      by_cases hnd : 2 ≤ f.mesh.ndim
+      · obtain ⟨g, hg⟩ := (sel_plane_accepts_subs f hf hmeta hsubs hnd dim a hd x h1 h2).2
+        exact ⟨_, hg⟩
+      · have h1d : f.mesh.ndim = 1 := by have := inv_ndim_pos hf.1; omega
+        exact ⟨_, (sel_plane_1d_value f hf.1 h1d dim a hd x h1 h2).2⟩
+  · intro hnd
+    rw [← hconv]
+    constructor
+    · rintro ⟨g, hg⟩
+      unfold selMesh at hg
+      cases hc : selConvert f.mesh dim (.point x) with
+      | error e => rw [hc] at hg; cases hg
+      | ok r => exact ⟨r, rfl⟩
+    · intro hr
+      obtain ⟨a, hd, h1, h2⟩ := hconv.mp hr
+      exact (sel_plane_accepts_subs f hf hmeta hsubs hnd dim a hd x h1 h2).1
+
+/-- Range selection is accepted EXACTLY when both bounds lie in the closed edge of a known axis
+(bounds in either order) — by the normalisation, `Mesh.sel` and `Field.sel` alike. -/
+theorem sel_range_ok_iff (f : Fld) (hf : FldWF f) (hmeta : metaOk f = true)
+    (hsubs : ∀ p, p ∈ f.mesh.subs → ∃ k1 k2, SubAligned f.mesh p.2 k1 k2)
+    (dim : String) (x y : Rat) :
+    ((∃ r, selConvert f.mesh dim (.range x y) = .ok r) ↔
+      ∃ a, f.mesh.region.dim2index dim = .ok a ∧ f.mesh.region.lo a ≤ min x y ∧ max x y ≤ f.mesh.region.hi a) ∧
+    ((∃ g, selMesh f.mesh dim (.range x y) = .ok g) ↔
+      ∃ a, f.mesh.region.dim2index dim = .ok a ∧ f.mesh.region.lo a ≤ min x y ∧ max x y ≤ f.mesh.region.hi a) ∧
+    ((∃ g, selFld f dim (.range x y) = .ok (.field g)) ↔
+      ∃ a, f.mesh.region.dim2index dim = .ok a ∧ f.mesh.region.lo a ≤ min x y ∧ max x y ≤ f.mesh.region.hi a) := by
+  have hconv : (∃ r, selConvert f.mesh dim (.range x y) = .ok r) ↔
+      ∃ a, f.mesh.region.dim2index dim = .ok a ∧ f.mesh.region.lo a ≤ min x y ∧ max x y ≤ f.mesh.region.hi a := by
+    constructor
+    · rintro ⟨⟨a, s⟩, hr⟩
+      obtain ⟨hd, h1, h2, _⟩ := selConvert_range_inv f.mesh hf.1 dim x y a s hr
+      exact ⟨a, hd, h1, h2⟩
+    · rintro ⟨a, hd, h1, h2⟩
+      exact ⟨_, (selConvert_range f.mesh hf.1 dim a hd x y h1 h2).1⟩
+  refine ⟨hconv, ?_, ?_⟩
+  · rw [← hconv]
+    constructor
+    · rintro ⟨g, hg⟩
+      unfold selMesh at hg
+      cases hc : selConvert f.mesh dim (.range x y) with
+      | error e => rw [hc] at hg; cases hg
+      | ok r => exact ⟨r, rfl⟩
+    · intro hr
+      obtain ⟨a, hd, h1, h2⟩ := hconv.mp hr
+      exact (sel_range_accepts_subs f hf hmeta hsubs dim a hd x y h1 h2).1
+  · rw [← hconv]
+    constructor
+    · rintro ⟨g, hg⟩
+      unfold selFld at hg
+      cases hc : selConvert f.mesh dim (.range x y) with
+      | error e => rw [hc] at hg; cases hg
+      | ok r => exact ⟨r, rfl⟩
+    · intro hr
+      obtain ⟨a, hd, h1, h2⟩ := hconv.mp hr
+      exact (sel_range_accepts_subs f hf hmeta hsubs dim a hd x y h1 h2).2
+
+/-- `Field.resample n` is accepted EXACTLY for one positive count per axis. -/
+theorem resample_ok_iff (f : Fld) (hf : f.mesh.Inv) (hmeta : metaOk f = true) (n : List Int) :
+    (∃ g, resample f n = .ok g) ↔ (n.length = f.mesh.ndim ∧ ∀ k, k ∈ n → 0 < k) := by
+  constructor
+  · rintro ⟨g, hg⟩
+    obtain ⟨_, _, h3, h4⟩ := resample_region f n g hg
+    exact ⟨h3, h4⟩
+  · rintro ⟨h1, h2⟩
+    exact resample_accepts f hf hmeta n h1 h2
+
+/-- `Field.pad` is accepted EXACTLY when every named axis exists and every width is non-negative
+(any mode). -/
+theorem pad_ok_iff (f : Fld) (hf : FldWF f) (hmeta : metaOk f = true) (pw : List PadW)
+    (hnd : (pw.map (·.dim)).Nodup)
+    (hbc : Mesh.bcOk f.mesh.region.dims f.mesh.bc.toLower = true) (mode : PadMode) :
+    (∃ g, padFld f pw mode = .ok g) ↔
+      ∀ w, w ∈ pw → (∃ a, f.mesh.region.dim2index w.dim = .ok a) ∧ 0 ≤ w.lo ∧ 0 ≤ w.hi := by
+  constructor
+  · rintro ⟨g, hg⟩ w hw
+    obtain ⟨r1, r2⟩ := pad_rejects f pw mode
+    refine ⟨?_, ?_, ?_⟩
+    · by_contra hcon
+      obtain ⟨_, e, he⟩ := r1 ⟨w, hw, fun a ha => hcon ⟨a, ha⟩⟩
+      rw [hg] at he; cases he
+    · by_contra hcon
+      obtain ⟨e, he⟩ := r2 ⟨w, hw, Or.inl (by omega)⟩
+      rw [hg] at he; cases he
+    · by_contra hcon
+      obtain ⟨e, he⟩ := r2 ⟨w, hw, Or.inr (by omega)⟩
+      rw [hg] at he; cases he
+  · intro h
+    exact (pad_accepts f hf hmeta pw hnd (fun w hw => (h w hw).1) (fun w hw => (h w hw).2) hbc mode).2
+
+/-- `mesh[name]` / `field[name]` are accepted EXACTLY for the names of subregions. -/
+theorem getitem_name_ok_iff (f : Fld) (hf : FldWF f) (hmeta : metaOk f = true)
+    (hsubs : ∀ p, p ∈ f.mesh.subs → ∃ k1 k2, SubAligned f.mesh p.2 k1 k2) (name : String) :
+    ((∃ g, getName f.mesh name = .ok g) ↔ ∃ s, findSub f.mesh.subs name = some s) ∧
+    ((∃ g, getItem f (.name name) = .ok g) ↔ ∃ s, findSub f.mesh.subs name = some s) := by
+  have hmem : ∀ s, findSub f.mesh.subs name = some s → ∃ k1 k2, SubAligned f.mesh s k1 k2 := by
+    intro s hs
+    unfold findSub at hs
+    cases hfd : f.mesh.subs.find? (fun p => p.1 == name) with
+    | none => rw [hfd] at hs; cases hs
+    | some p =>
+      rw [hfd] at hs
+      simp only [Option.map_some, Option.some.injEq] at hs
+      subst hs
+      exact hsubs p (List.mem_of_find?_eq_some hfd)
+  constructor
+  · constructor
+    · rintro ⟨g, hg⟩
+      cases hfd : findSub f.mesh.subs name with
+      | none =>
+        obtain ⟨⟨e, he⟩, _⟩ := getitem_outside_rejected f (.name name) (Or.inl ⟨name, rfl, hfd⟩)
+        have : getName f.mesh name = .error e := he
+        rw [hg] at this; cases this
+      | some s => exact ⟨s, rfl⟩
+    · rintro ⟨s, hs⟩
+      obtain ⟨k1, k2, hal⟩ := hmem s hs
+      exact (getitem_name_accepts f hf hmeta name s hs k1 k2 hal).1
+  · constructor
+    · rintro ⟨g, hg⟩
+      cases hfd : findSub f.mesh.subs name with
+      | none =>
+        obtain ⟨_, e, he⟩ := getitem_outside_rejected f (.name name) (Or.inl ⟨name, rfl, hfd⟩)
+        rw [hg] at he; cases he
+      | some s => exact ⟨s, rfl⟩
+    · rintro ⟨s, hs⟩
+      obtain ⟨k1, k2, hal⟩ := hmem s hs
+      exact (getitem_name_accepts f hf hmeta name s hs k1 k2 hal).2
+
+
+/-! ## Composition laws and round trips on inputs only -/
+
+/-- Every accepted operation on a field in constructor state keeps component count, unit, labels
+and mapping, and returns a field in constructor state (`op_meta` and `op_meta_passthrough` in one). -/
+theorem op_meta_kept (f : Fld) (hmi : MetaInv f) (op : FOp) (g : Fld) (h : applyOp f op = .ok g) :
+    g.nvdim = f.nvdim ∧ g.unit = f.unit ∧ g.vdims = f.vdims ∧ g.vmap = f.vmap ∧ MetaInv g := by
+  obtain ⟨_, a1, a2, _⟩ := op_meta f op g h
+  obtain ⟨b1, b2, b3⟩ := op_meta_passthrough f hmi op g h
+  exact ⟨a1, a2, b1, b2, b3⟩
+
+/-- Invariant: subregions made of whole cells stay subregions made of whole cells (of the result
+mesh) under a plane selection — so acceptance chains along histories of selections. -/
+theorem sel_plane_subs_aligned (m : Mesh) (hm : m.Inv) (hsubs : SubsAligned m) (dim : String) (arg : SelArg)
+    (a : Nat) (c : Rat) (k : Nat) (hconv : selConvert m dim arg = .ok (a, .plane c k))
+    (g : Mesh) (h : selMesh m dim arg = .ok g) : SubsAligned g := by
+  obtain ⟨s1, s2, _, _, _, sax, _⟩ := sel_plane_shape m hm dim arg a c k hconv g h
+  have ha : a < m.ndim := by
+    unfold selConvert at hconv
+    split at hconv
+    · cases hconv
+    · rename_i a' hd
+      have := dim2index_ndim hm hd
+      cases arg <;> simp only at hconv
+      · split at hconv
+        · cases hconv
+        · injection hconv with hc; injection hc with hc _; omega
+      · split at hconv
+        · cases hconv
+        · injection hconv with hc; injection hc with hc _; omega
+      · split at hconv
+        · cases hconv
+        · split at hconv
+          · cases hconv
+          · injection hconv with hc; injection hc with _ hc; cases hc
+      · cases hconv
+  have hF := sel_plane_subs m hm (subsAligned_wf m hm hsubs) dim arg a c k hconv ha g h
+  intro q hq
+  obtain ⟨p, hp, _, _, _, _, q5, q6, q7⟩ := forall2_mem_left hF q hq
+  obtain ⟨k1, k2, hal⟩ := hsubs p (List.mem_filter.mp hp).1
+  refine ⟨fun b => k1 (skip a b), fun b => k2 (skip a b), ?_, ?_, ?_⟩
+  · rw [q5, s1]
+  · rw [q6, s1]
+  · intro b hb
+    rw [s1] at hb
+    obtain ⟨e1, e2, e3, e4⟩ := sax b (by rw [s1]; exact hb)
+    obtain ⟨t1, t2, t3, t4⟩ := hal.2.2 (skip a b) (skip_lt a b m.ndim ha hb)
+    obtain ⟨u1, u2⟩ := q7 b hb
+    exact ⟨t1, by rw [e3]; exact t2, by rw [u1, t3, e1, e4], by rw [u2, t4, e1, e4]⟩
+
+/-- … and under a range selection: every surviving (clipped) subregion consists of whole cells of the
+result mesh. -/
+theorem sel_range_subs_aligned (m : Mesh) (hm : m.Inv) (hsubs : SubsAligned m) (dim : String) (x y : Rat)
+    (g : Mesh) (h : selMesh m dim (.range x y) = .ok g) : SubsAligned g := by
+  obtain ⟨a, hd, b1, b2, g1, g2, g3, g4, g5, g6, g7, g8, g9, ginv⟩ := sel_range_shape m hm dim x y g h
+  obtain ⟨a', hd', hF⟩ := sel_range_subs m hm (subsAligned_wf m hm hsubs) dim x y g h
+  rw [hd] at hd'; injection hd' with hd'; subst hd'
+  have ha := dim2index_ndim hm hd
+  have hc := inv_cell_pos hm ha
+  obtain ⟨_, hk, hk2⟩ := selConvert_range m hm dim a hd x y b1 b2
+  set K1 := m.indexAx a (min x y) with hK1
+  set K2 := m.indexAx a (max x y) with hK2
+  intro q hq
+  obtain ⟨p, hp, _, _, _, _, q5, q6, q7, q8, q9⟩ := forall2_mem_left hF q hq
+  obtain ⟨hmem, hkeep⟩ := List.mem_filter.mp hp
+  rw [decide_eq_true_iff] at hkeep
+  obtain ⟨k1, k2, hal⟩ := hsubs p hmem
+  obtain ⟨t1, t2, t3, t4⟩ := hal.2.2 a ha
+  rw [t3, t4, g5, g6] at hkeep
+  obtain ⟨hkp1, hkp2⟩ := keep_cells _ _ hc K1 K2 (k1 a) (k2 a) hkeep
+  obtain ⟨c1, c2⟩ := range_sub_clip_cells (m.region.lo a) (m.cellAt a) hc K1 K2 (k1 a) (k2 a)
+  refine ⟨fun b => if b = a then max K1 (k1 a) - K1 else k1 b,
+    fun b => if b = a then min (K2 + 1) (k2 a) - K1 else k2 b, ?_, ?_, ?_⟩
+  · rw [q5, g1]
+  · rw [q6, g1]
+  · intro b hb
+    rw [g1] at hb
+    by_cases hba : b = a
+    · subst hba
+      simp only [if_true]
+      have hge : K1 ≤ min (K2 + 1) (k2 b) := by rw [Nat.le_min]; omega
+      have cc1 : ((max K1 (k1 b) - K1 : Nat) : Rat) = ((max K1 (k1 b) : Nat) : Rat) - (K1 : Rat) := by
+        push_cast [Nat.cast_sub (Nat.le_max_left K1 (k1 b))]; ring
+      have cc2 : ((min (K2 + 1) (k2 b) - K1 : Nat) : Rat) = ((min (K2 + 1) (k2 b) : Nat) : Rat) - (K1 : Rat) := by
+        push_cast [Nat.cast_sub hge]; ring
+      refine ⟨?_, ?_, ?_, ?_⟩
+      · have h1 : max K1 (k1 b) < min (K2 + 1) (k2 b) := by
+          rw [Nat.lt_min, Nat.max_lt, Nat.max_lt]; omega
+        omega
+      · rw [g7]
+        have : min (K2 + 1) (k2 b) ≤ K2 + 1 := Nat.min_le_left _ _
+        omega
+      · rw [q7, g5, t3, c1, g8, cc1]; ring
+      · rw [q8, g6, t4, c2, g5, g8, cc2]; ring
+    · simp only [hba, if_false]
+      obtain ⟨u1, u2⟩ := q9 b hb hba
+      obtain ⟨v1, v2, v3, v4⟩ := g9 b hb hba
+      obtain ⟨w1, w2, w3, w4⟩ := hal.2.2 b hb
+      exact ⟨w1, by rw [v3]; exact w2, by rw [u1, w3, v1, v4], by rw [u2, w4, v1, v4]⟩
+
+/-- Range then sub-range equals the sub-range, on inputs only and without exception: for a range
+inside the region and a sub-range inside that range (bounds of both in either order), the three
+selections are accepted — also on meshes with subregions — and `f.sel(d=(x,y)).sel(d=(x',y'))` is
+`f.sel(d=(x',y'))`: region, counts, metadata, values, validity.  (The face exception of
+`sel_range_range` cannot occur: an upper bound on the upper face of the first selection would have
+to exceed the first range.) -/
+theorem sel_range_range_total (f : Fld) (hf : FldWF f) (hmi : MetaInv f) (hsubs : SubsAligned f.mesh)
+    (dim : String) (a : Nat) (hd : f.mesh.region.dim2index dim = .ok a) (x y x' y' : Rat)
+    (h1 : f.mesh.region.lo a ≤ min x y) (h2 : max x y ≤ f.mesh.region.hi a)
+    (h3 : min x y ≤ min x' y') (h4 : max x' y' ≤ max x y) :
+    ∃ g h h', selFld f dim (.range x y) = .ok (.field g) ∧ selFld g dim (.range x' y') = .ok (.field h) ∧
+      selFld f dim (.range x' y') = .ok (.field h') ∧
+      h.mesh.region = h'.mesh.region ∧ h.mesh.n = h'.mesh.n ∧
+      h.nvdim = h'.nvdim ∧ h.unit = h'.unit ∧ h.vdims = h'.vdims ∧ h.vmap = h'.vmap ∧
+      ∀ j, inRange h.mesh.n j = true → h.data.get j = h'.data.get j ∧ h.valid.get j = h'.valid.get j := by
+  have hinv := hf.1
+  have ha := dim2index_ndim hinv hd
+  have hc := inv_cell_pos hinv ha
+  have hn := inv_n_pos hinv ha
+  have hmm : min x y ≤ max x y := le_trans (min_le_left _ _) (le_max_left _ _)
+  have hmm' : min x' y' ≤ max x' y' := le_trans (min_le_left _ _) (le_max_left _ _)
+  obtain ⟨g, hg⟩ := (sel_range_accepts_subs f hf (metaInv_ok f hmi).1 hsubs dim a hd x y h1 h2).2
+  obtain ⟨h', hh'⟩ := (sel_range_accepts_subs f hf (metaInv_ok f hmi).1 hsubs dim a hd x' y'
+    (le_trans h1 h3) (le_trans h4 h2)).2
+  have happ : applyOp f (.sel dim (.range x y)) = .ok g := by simp only [applyOp, hg]
+  have happ' : applyOp f (.sel dim (.range x' y')) = .ok h' := by simp only [applyOp, hh']
+  have gwf := op_wf f hf (.sel dim (.range x y)) trivial g happ
+  obtain ⟨hgm, _⟩ := op_meta f _ g happ
+  have hgm' : selMesh f.mesh dim (.range x y) = .ok g.mesh := hgm
+  obtain ⟨m1, m2, m3, m4, gmi⟩ := op_meta_kept f hmi _ g happ
+  obtain ⟨m1', m2', m3', m4', _⟩ := op_meta_kept f hmi _ h' happ'
+  obtain ⟨a', hda, _, _, g1, g2, _, _, g5, g6, _, g8, _, _⟩ := sel_range_shape f.mesh hinv dim x y g.mesh hgm'
+  rw [hd] at hda; injection hda with hda; subst hda
+  have hdg : g.mesh.region.dim2index dim = .ok a := by rw [dim2index_congr _ _ g2]; exact hd
+  have gsubs := sel_range_subs_aligned f.mesh hinv hsubs dim x y g.mesh hgm'
+  obtain ⟨c1, _⟩ := index_contains f.mesh a (min x y) hn (inv_lo_lt_hi hinv ha) h1 (le_trans hmm h2)
+  obtain ⟨_, c2⟩ := index_contains f.mesh a (max x y) hn (inv_lo_lt_hi hinv ha) (le_trans h1 hmm) h2
+  have hglo : g.mesh.region.lo a ≤ min x' y' := by rw [g5]; linarith
+  have hghi : max x' y' ≤ g.mesh.region.hi a ∧
+      (max x' y' < g.mesh.region.hi a ∨ g.mesh.region.hi a = f.mesh.region.hi a) := by
+    rw [g6]
+    rcases c2 with c2 | ⟨c2, c3⟩
+    · exact ⟨by linarith, Or.inl (by linarith)⟩
+    · have hcast : ((f.mesh.nAt a - 1 : Nat) : Rat) = (f.mesh.nAt a : Rat) - 1 := by
+        push_cast [Nat.cast_sub (by omega : 1 ≤ f.mesh.nAt a)]; ring
+      have : f.mesh.region.lo a + ((f.mesh.indexAx a (max x y) : Rat) + 1) * f.mesh.cellAt a = f.mesh.region.hi a := by
+        rw [c2, hcast, hi_eq f.mesh a hn]; ring
+      rw [this]
+      exact ⟨le_trans h4 h2, Or.inr rfl⟩
+  obtain ⟨h, hh⟩ := (sel_range_accepts_subs g gwf (metaInv_ok g gmi).1 gsubs dim a hdg x' y' hglo hghi.1).2
+  have happ2 : applyOp g (.sel dim (.range x' y')) = .ok h := by simp only [applyOp, hh]
+  obtain ⟨n1, n2, n3, n4, _⟩ := op_meta_kept g gmi _ h happ2
+  obtain ⟨r1, r2, r3⟩ := sel_range_range f hf dim x y x' y' g h h' hg hh hh' a hd hghi.2
+  exact ⟨g, h, h', hg, hh, hh', r1, r2, by rw [n1, m1, m1'], by rw [n2, m2, m2'], by rw [n3, m3, m3'],
+    by rw [n4, m4, m4'], r3⟩
+
+/-- The exception of `sel_range_range`, exactly: a sub-range whose upper bound lies ON the upper face
+of the first selection (and that face is inside the region).  After the first selection the face
+belongs to the last kept cell; in the original mesh it belongs to the next cell.  Hence the direct
+selection has exactly one more layer on top — same lower corner, one more cell, upper corner one
+cell higher, every other axis identical — and agrees with the two-step selection on all cells of
+the latter. -/
+theorem sel_range_range_face (f : Fld) (hf : FldWF f) (hmi : MetaInv f) (hsubs : SubsAligned f.mesh)
+    (dim : String) (a : Nat) (hd : f.mesh.region.dim2index dim = .ok a) (x y x' y' : Rat)
+    (h1 : f.mesh.region.lo a ≤ min x y) (h2 : max x y ≤ f.mesh.region.hi a)
+    (h3 : f.mesh.region.lo a + (f.mesh.indexAx a (min x y) : Rat) * f.mesh.cellAt a ≤ min x' y')
+    (h4 : min x' y' < max x' y')
+    (hU : max x' y' = f.mesh.region.lo a + ((f.mesh.indexAx a (max x y) : Rat) + 1) * f.mesh.cellAt a)
+    (hUlt : max x' y' < f.mesh.region.hi a) :
+    ∃ g h h', selFld f dim (.range x y) = .ok (.field g) ∧ selFld g dim (.range x' y') = .ok (.field h) ∧
+      selFld f dim (.range x' y') = .ok (.field h') ∧
+      h'.mesh.ndim = h.mesh.ndim ∧
+      h'.mesh.region.lo a = h.mesh.region.lo a ∧
+      h'.mesh.region.hi a = h.mesh.region.hi a + f.mesh.cellAt a ∧
+      h'.mesh.nAt a = h.mesh.nAt a + 1 ∧
+      (∀ b, b < f.mesh.ndim → b ≠ a → h'.mesh.region.lo b = h.mesh.region.lo b ∧
+        h'.mesh.region.hi b = h.mesh.region.hi b ∧ h'.mesh.nAt b = h.mesh.nAt b) ∧
+      ∀ j, inRange h.mesh.n j = true →
+        inRange h'.mesh.n j = true ∧ h.data.get j = h'.data.get j ∧ h.valid.get j = h'.valid.get j := by
+  have hinv := hf.1
+  have ha := dim2index_ndim hinv hd
+  have hc := inv_cell_pos hinv ha
+  have hn := inv_n_pos hinv ha
+  have hmm : min x y ≤ max x y := le_trans (min_le_left _ _) (le_max_left _ _)
+  have hmm' : min x' y' ≤ max x' y' := h4.le
+  obtain ⟨_, hk, hk2⟩ := selConvert_range f.mesh hinv dim a hd x y h1 h2
+  set K1 := f.mesh.indexAx a (min x y) with hK1
+  set K2 := f.mesh.indexAx a (max x y) with hK2
+  have h0K : (0 : Rat) ≤ (K1 : Rat) := by exact_mod_cast Nat.zero_le _
+  have hflo : f.mesh.region.lo a ≤ min x' y' := by nlinarith
+  obtain ⟨g, hg⟩ := (sel_range_accepts_subs f hf (metaInv_ok f hmi).1 hsubs dim a hd x y h1 h2).2
+  obtain ⟨h', hh'⟩ := (sel_range_accepts_subs f hf (metaInv_ok f hmi).1 hsubs dim a hd x' y' hflo hUlt.le).2
+  have happ : applyOp f (.sel dim (.range x y)) = .ok g := by simp only [applyOp, hg]
+  have gwf := op_wf f hf (.sel dim (.range x y)) trivial g happ
+  obtain ⟨hgm, _⟩ := op_meta f _ g happ
+  have hgm' : selMesh f.mesh dim (.range x y) = .ok g.mesh := hgm
+  obtain ⟨_, _, _, _, gmi⟩ := op_meta_kept f hmi _ g happ
+  obtain ⟨a', hda, _, _, g1, g2, _, _, g5, g6, g7, g8, g9, ginv⟩ := sel_range_shape f.mesh hinv dim x y g.mesh hgm'
+  rw [hd] at hda; injection hda with hda; subst hda
+  have hdg : g.mesh.region.dim2index dim = .ok a := by rw [dim2index_congr _ _ g2]; exact hd
+  have gsubs := sel_range_subs_aligned f.mesh hinv hsubs dim x y g.mesh hgm'
+  have hghi : max x' y' = g.mesh.region.hi a := by rw [g6, hU]
+  obtain ⟨h, hh⟩ := (sel_range_accepts_subs g gwf (metaInv_ok g gmi).1 gsubs dim a hdg x' y'
+    (by rw [g5]; exact h3) hghi.le).2
+  refine ⟨g, h, h', hg, hh, hh', ?_⟩
+  -- meshes of the second and the direct selection
+  obtain ⟨hm, _, _, hhm, hhc⟩ := selFld_ctor g dim _ h hh
+  obtain ⟨hm', _, _, hhm', hhc'⟩ := selFld_ctor f dim _ h' hh'
+  have ehm := (mkFld_inv _ _ _ _ _ hhc).1
+  have ehm' := (mkFld_inv _ _ _ _ _ hhc').1
+  rw [← ehm] at hhm; rw [← ehm'] at hhm'
+  have blk : AxisBlock g.mesh f.mesh a a K1 (K2 - K1 + 1) := ⟨g5, g7, g8, by omega⟩
+  have hgn : 0 < g.mesh.nAt a := by rw [g7]; omega
+  have hgc : 0 < g.mesh.cellAt a := by rw [g8]; exact hc
+  obtain ⟨a2, hd2, c1, c2, s1, s2, s3, s4, s5, s6, s7, s8, s9, sinv⟩ :=
+    sel_range_shape g.mesh ginv dim x' y' h.mesh hhm
+  rw [hdg] at hd2; injection hd2 with hd2; subst hd2
+  obtain ⟨a3, hd3, d1, d2, t1, t2, t3, t4, t5, t6, t7, t8, t9, tinv⟩ :=
+    sel_range_shape f.mesh hinv dim x' y' h'.mesh hhm'
+  rw [hd] at hd3; injection hd3 with hd3; subst hd3
+  -- the indices
+  have i1 : f.mesh.indexAx a (min x' y') = K1 + g.mesh.indexAx a (min x' y') :=
+    indexAx_block blk (by omega) hc _ c1 (le_trans hmm' c2) (Or.inl (by rw [← hghi]; exact h4))
+  have i2g : g.mesh.indexAx a (max x' y') = K2 - K1 := by
+    rw [hghi, indexAx_hi g.mesh a hgn hgc, g7]; omega
+  have hK2n : K2 + 1 < f.mesh.nAt a := by
+    have e := hi_eq f.mesh a hn
+    rw [hU, e] at hUlt
+    have : ((K2 : Rat) + 1) < (f.mesh.nAt a : Rat) := by
+      by_contra hcon; rw [not_lt] at hcon
+      have := mul_le_mul_of_nonneg_right hcon hc.le; linarith
+    exact_mod_cast this
+  have i2f : f.mesh.indexAx a (max x' y') = K2 + 1 := by
+    apply indexAx_eq_of_bounds f.mesh a _ (K2 + 1) hK2n hc
+    · rw [hU]; push_cast; linarith
+    · rw [hU]; push_cast; linarith
+  have hgk := indexAx_mono g.mesh a _ _ hgc hmm'
+  rw [i2g] at hgk
+  have hnd : h'.mesh.ndim = h.mesh.ndim := by rw [s1, t1, g1]
+  have hoth : ∀ b, b < f.mesh.ndim → b ≠ a → h'.mesh.region.lo b = h.mesh.region.lo b ∧
+      h'.mesh.region.hi b = h.mesh.region.hi b ∧ h'.mesh.nAt b = h.mesh.nAt b := by
+    intro b hb hba
+    obtain ⟨u1, u2, u3, _⟩ := s9 b (by rw [g1]; exact hb) hba
+    obtain ⟨v1, v2, v3, _⟩ := g9 b hb hba
+    obtain ⟨w1, w2, w3, _⟩ := t9 b hb hba
+    exact ⟨by rw [u1, v1, w1], by rw [u2, v2, w2], by rw [u3, v3, w3]⟩
+  have hna : h'.mesh.nAt a = h.mesh.nAt a + 1 := by rw [s7, t7, i1, i2f, i2g]; omega
+  refine ⟨hnd, ?_, ?_, hna, hoth, ?_⟩
+  · rw [s5, t5, g5, g8, i1]; push_cast; ring
+  · rw [s6, t6, g5, g8, i2f, i2g]
+    have : ((K2 - K1 : Nat) : Rat) = (K2 : Rat) - (K1 : Rat) := by push_cast [Nat.cast_sub hk]; ring
+    rw [this]; push_cast; ring
+  · intro j hj
+    have hjl : j.length = f.mesh.ndim := by
+      rw [inRange_length _ _ hj, inv_n_length sinv, s1, g1]
+    have hjb : ∀ b, b < f.mesh.ndim → j.getD b 0 < h.mesh.nAt b := fun b hb =>
+      inRange_getD _ _ hj b (by rw [inv_n_length sinv, s1, g1]; exact hb)
+    have hj' : inRange h'.mesh.n j = true := by
+      apply inRange_of_getD _ _ (by rw [inv_n_length tinv, t1, hjl])
+      intro b hb
+      rw [inv_n_length tinv, t1] at hb
+      show _ < h'.mesh.nAt b
+      by_cases hba : b = a
+      · subst hba; rw [hna]; have := hjb b hb; omega
+      · rw [(hoth b hb hba).2.2]; exact hjb b hb
+    obtain ⟨a4, hd4, p4⟩ := sel_range_pointwise g ginv dim x' y' h hh
+    rw [hdg] at hd4; injection hd4 with hd4; subst hd4
+    obtain ⟨a5, hd5, p5⟩ := sel_range_pointwise f hinv dim x' y' h' hh'
+    rw [hd] at hd5; injection hd5 with hd5; subst hd5
+    obtain ⟨a6, hd6, p6⟩ := sel_range_pointwise f hinv dim x y g hg
+    rw [hd] at hd6; injection hd6 with hd6; subst hd6
+    obtain ⟨_, e2, e3⟩ := p4 j hj
+    obtain ⟨_, e5, e6⟩ := p5 j hj'
+    have hin : inRange g.mesh.n (setAt j a (j.getD a 0 + g.mesh.indexAx a (min x' y'))) = true := by
+      apply inRange_of_getD _ _ (by rw [length_setAt, hjl, inv_n_length ginv, g1])
+      intro b hb
+      rw [inv_n_length ginv, g1] at hb
+      show _ < g.mesh.nAt b
+      by_cases hba : b = a
+      · subst hba
+        rw [getD_setAt_eq _ _ _ _ (by omega)]
+        have := hjb b hb
+        rw [s7, i2g] at this
+        rw [g7]; omega
+      · rw [getD_setAt_ne _ _ _ _ _ hba]
+        have := hjb b hb
+        rw [(s9 b (by omega) hba).2.2.1] at this
+        exact this
+    obtain ⟨_, e8, e9⟩ := p6 _ hin
+    have hidx : setAt (setAt j a (j.getD a 0 + g.mesh.indexAx a (min x' y'))) a
+        ((setAt j a (j.getD a 0 + g.mesh.indexAx a (min x' y'))).getD a 0 + f.mesh.indexAx a (min x y))
+        = setAt j a (j.getD a 0 + f.mesh.indexAx a (min x' y')) := by
+      rw [setAt_setAt, getD_setAt_eq _ _ _ _ (by omega), i1]
+      congr 1; omega
+    rw [hidx] at e8 e9
+    rw [e2, e3, e5, e6, e8, e9]
+    exact ⟨hj', rfl, rfl⟩
+
+/-- One accepted plane selection on a mesh with subregions of whole cells, with everything needed to
+go on: the result is a well-formed field in constructor state whose subregions again consist of
+whole cells, with the source's metadata, on the mesh with the axis removed. -/
+theorem sel_plane_result_subs (F : Fld) (hF : FldWF F) (hmi : MetaInv F) (hsubs : SubsAligned F.mesh)
+    (h2 : 2 ≤ F.mesh.ndim) (d : String) (α : Nat) (hd : F.mesh.region.dim2index d = .ok α) (ξ : Rat)
+    (h1 : F.mesh.region.lo α ≤ ξ) (hx2 : ξ ≤ F.mesh.region.hi α) :
+    ∃ G, selFld F d (.point ξ) = .ok (.field G) ∧ FldWF G ∧ MetaInv G ∧ SubsAligned G.mesh ∧
+      G.nvdim = F.nvdim ∧ G.unit = F.unit ∧ G.vdims = F.vdims ∧ G.vmap = F.vmap ∧
+      G.mesh.ndim = F.mesh.ndim - 1 ∧ G.mesh.region.dims = removeAt F.mesh.region.dims α ∧
+      ∀ b, b < G.mesh.ndim →
+        G.mesh.region.lo b = F.mesh.region.lo (skip α b) ∧ G.mesh.region.hi b = F.mesh.region.hi (skip α b) := by
+  obtain ⟨G, hG⟩ := (sel_plane_accepts_subs F hF (metaInv_ok F hmi).1 hsubs h2 d α hd ξ h1 hx2).2
+  have happ : applyOp F (.sel d (.point ξ)) = .ok G := by simp only [applyOp, hG]
+  obtain ⟨m1, m2, m3, m4, gmi⟩ := op_meta_kept F hmi _ G happ
+  obtain ⟨hgm, _⟩ := op_meta F _ G happ
+  have hgm' : selMesh F.mesh d (.point ξ) = .ok G.mesh := hgm
+  have hconv := (selConvert_point F.mesh hF.1 d α hd ξ h1 hx2).1
+  have gs := sel_plane_subs_aligned F.mesh hF.1 hsubs d _ α _ _ hconv G.mesh hgm'
+  obtain ⟨w, n1, _, d1, _, _, ax, _⟩ := sel_plane_facts F hF d α hd ξ G hG
+  exact ⟨G, hG, w, gmi, gs, m1, m2, m3, m4, n1, d1, fun b hb => ⟨(ax b hb).1, (ax b hb).2.1⟩⟩
+
+/-- Plane selections along different axes commute, on inputs only: for a field of at least three
+dimensions (with subregions of whole cells), two different axes and coordinates inside their edges,
+all four selections are accepted and both orders give the same region, counts, metadata, values and
+validity. -/
+theorem sel_plane_comm_total (f : Fld) (hf : FldWF f) (hmi : MetaInv f) (hsubs : SubsAligned f.mesh)
+    (h3 : 3 ≤ f.mesh.ndim) (da db : String) (a b : Nat) (hab : a ≠ b)
+    (hda : f.mesh.region.dim2index da = .ok a) (hdb : f.mesh.region.dim2index db = .ok b) (x y : Rat)
+    (hx : f.mesh.region.lo a ≤ x ∧ x ≤ f.mesh.region.hi a)
+    (hy : f.mesh.region.lo b ≤ y ∧ y ≤ f.mesh.region.hi b) :
+    ∃ g1 h1 g2 h2, selFld f da (.point x) = .ok (.field g1) ∧ selFld g1 db (.point y) = .ok (.field h1) ∧
+      selFld f db (.point y) = .ok (.field g2) ∧ selFld g2 da (.point x) = .ok (.field h2) ∧
+      h1.mesh.region = h2.mesh.region ∧ h1.mesh.n = h2.mesh.n ∧
+      h1.nvdim = h2.nvdim ∧ h1.unit = h2.unit ∧ h1.vdims = h2.vdims ∧ h1.vmap = h2.vmap ∧
+      ∀ j, inRange h1.mesh.n j = true → h1.data.get j = h2.data.get j ∧ h1.valid.get j = h2.valid.get j := by
+  have ha := dim2index_ndim hf.1 hda
+  have hb := dim2index_ndim hf.1 hdb
+  have hdl := inv_dims_length hf.1
+  obtain ⟨g1, e1, w1, i1, s1, p1, p2, p3, p4, n1, d1, ax1⟩ :=
+    sel_plane_result_subs f hf hmi hsubs (by omega) da a hda x hx.1 hx.2
+  obtain ⟨g2, e3, w2, i2, s2, q1, q2, q3, q4, n2, d2, ax2⟩ :=
+    sel_plane_result_subs f hf hmi hsubs (by omega) db b hdb y hy.1 hy.2
+  -- the other axis in each intermediate field
+  have hdb1 := dim2index_removeAt f.mesh.region g1.mesh.region db a b hdb hab (by omega) d1
+  have hda2 := dim2index_removeAt f.mesh.region g2.mesh.region da b a hda (Ne.symm hab) (by omega) d2
+  have hsk1 : skip a (if b < a then b else b - 1) = b := by
+    unfold skip
+    by_cases hlt : b < a
+    · rw [if_pos hlt, if_pos hlt]
+    · rw [if_neg hlt, if_neg (by omega)]; omega
+  have hsk2 : skip b (if a < b then a else a - 1) = a := by
+    unfold skip
+    by_cases hlt : a < b
+    · rw [if_pos hlt, if_pos hlt]
+    · rw [if_neg hlt, if_neg (by omega)]; omega
+  have hlt1 : (if b < a then b else b - 1) < g1.mesh.ndim := by split <;> omega
+  have hlt2 : (if a < b then a else a - 1) < g2.mesh.ndim := by split <;> omega
+  obtain ⟨l1, l2⟩ := ax1 _ hlt1
+  obtain ⟨l3, l4⟩ := ax2 _ hlt2
+  rw [hsk1] at l1 l2
+  rw [hsk2] at l3 l4
+  obtain ⟨h1, e2, _, _, _, r1, r2, r3, r4, _⟩ :=
+    sel_plane_result_subs g1 w1 i1 s1 (by omega) db _ hdb1 y (by rw [l1]; exact hy.1) (by rw [l2]; exact hy.2)
+  obtain ⟨h2, e4, _, _, _, t1, t2, t3, t4, _⟩ :=
+    sel_plane_result_subs g2 w2 i2 s2 (by omega) da _ hda2 x (by rw [l3]; exact hx.1) (by rw [l4]; exact hx.2)
+  obtain ⟨c1, c2, c3⟩ := sel_plane_comm f hf da db a b hab hda hdb x y g1 h1 g2 h2 e1 e2 e3 e4
+  exact ⟨g1, h1, g2, h2, e1, e2, e3, e4, c1, c2, by rw [r1, p1, t1, q1], by rw [r2, p2, t2, q2],
+    by rw [r3, p3, t3, q3], by rw [r4, p4, t4, q4], c3⟩
+
+/-- `field[r1][r2] = field[r2]` on inputs only: for a box `r1` inside the region and a box `r2` inside
+`r1`, the three extractions are accepted and the two routes give the same object. -/
+theorem getitem_getitem_total (f : Fld) (hf : FldWF f) (hmi : MetaInv f) (r1 r2 : Region)
+    (hb1 : BoxIn f.mesh r1) (hp1 : r1.pmax.length = f.mesh.ndim)
+    (hn2 : r2.ndim = f.mesh.ndim) (hp2 : r2.pmax.length = f.mesh.ndim)
+    (hin : ∀ a, a < f.mesh.ndim → r1.lo a ≤ r2.lo a ∧ r2.lo a < r2.hi a ∧ r2.hi a ≤ r1.hi a) :
+    ∃ g h h', getItem f (.region r1) = .ok g ∧ getItem g (.region r2) = .ok h ∧
+      getItem f (.region r2) = .ok h' ∧
+      h.mesh.region = h'.mesh.region ∧ h.mesh.n = h'.mesh.n ∧ h.mesh.bc = h'.mesh.bc ∧ h.mesh.subs = h'.mesh.subs ∧
+      h.nvdim = h'.nvdim ∧ h.unit = h'.unit ∧ h.vdims = h'.vdims ∧ h.vmap = h'.vmap ∧
+      ∀ j, inRange h.mesh.n j = true → h.data.get j = h'.data.get j ∧ h.valid.get j = h'.valid.get j := by
+  have hmo := (metaInv_ok f hmi).1
+  obtain ⟨g, hg⟩ := (getitem_region_accepts f hf hmo r1 hb1 hp1).2
+  have hb2' : BoxIn f.mesh r2 := by
+    refine ⟨hn2, ?_⟩
+    intro a ha
+    obtain ⟨c1, c2, c3⟩ := hin a ha
+    obtain ⟨d1, d2, d3⟩ := hb1.2 a ha
+    exact ⟨by linarith, c2, by linarith⟩
+  obtain ⟨h', hh'⟩ := (getitem_region_accepts f hf hmo r2 hb2' hp2).2
+  have gwf := op_wf f hf (.get (.region r1)) hb1 g hg
+  obtain ⟨m1, m2, m3, m4, gmi⟩ := op_meta_kept f hmi (.get (.region r1)) g hg
+  obtain ⟨m1', m2', m3', m4', _⟩ := op_meta_kept f hmi (.get (.region r2)) h' hh'
+  obtain ⟨hgm, _⟩ := getitem_region_pointwise f hf r1 hb1 g hg
+  obtain ⟨e1, _, _, hax⟩ := getRegion_smallest f.mesh hf.1 r1 hb1 g.mesh hgm
+  have hb2 : BoxIn g.mesh r2 := by
+    refine ⟨by rw [e1]; exact hn2, ?_⟩
+    intro a ha
+    rw [e1] at ha
+    obtain ⟨_, _, _, _, _, _, _, _, q5, q6, _, _⟩ := hax a ha
+    obtain ⟨c1, c2, c3⟩ := hin a ha
+    exact ⟨by linarith, c2, by linarith⟩
+  obtain ⟨h, hh⟩ := (getitem_region_accepts g gwf (metaInv_ok g gmi).1 r2 hb2 (by rw [e1]; exact hp2)).2
+  obtain ⟨n1, n2, n3, n4, _⟩ := op_meta_kept g gmi (.get (.region r2)) h hh
+  obtain ⟨r1', r2', r3'⟩ := getitem_getitem f hf r1 r2 hb1 g h h' hg hb2 hh hh'
+  obtain ⟨u1, _⟩ := op_subs_bc g (.get (.region r2)) h hh
+  obtain ⟨u1', _⟩ := op_subs_bc f (.get (.region r2)) h' hh'
+  obtain ⟨v1, v2⟩ := u1 _ rfl
+  obtain ⟨v1', v2'⟩ := u1' _ rfl
+  exact ⟨g, h, h', hg, hh, hh', r1', r2', by rw [v2, v2'], by rw [v1, v1'],
+    by rw [n1, m1, m1'], by rw [n2, m2, m2'], by rw [n3, m3, m3'], by rw [n4, m4, m4'], r3'⟩
+
+/-- Pad / crop round trip on inputs only: for a well-formed field in constructor state, existing axes
+and non-negative widths, in every mode, `pad` is accepted, extracting the original region from the
+result is accepted, and the outcome is the original field — region (corners, names, units,
+tolerance), cell counts, component count, unit, labels, mapping, every value and every validity bit;
+the mesh of the outcome has no boundary condition and no subregions (as after every `__getitem__`). -/
+theorem pad_crop_total (f : Fld) (hf : FldWF f) (hmi : MetaInv f) (pw : List PadW)
+    (hnd : (pw.map (·.dim)).Nodup)
+    (hdims : ∀ w, w ∈ pw → ∃ a, f.mesh.region.dim2index w.dim = .ok a)
+    (hpos : ∀ w, w ∈ pw → 0 ≤ w.lo ∧ 0 ≤ w.hi)
+    (hbc : Mesh.bcOk f.mesh.region.dims f.mesh.bc.toLower = true) (mode : PadMode) :
+    ∃ g h, padFld f pw mode = .ok g ∧ getItem g (.region f.mesh.region) = .ok h ∧
+      h.mesh.region = f.mesh.region ∧ h.mesh.n = f.mesh.n ∧ h.mesh.bc = "" ∧ h.mesh.subs = [] ∧
+      h.nvdim = f.nvdim ∧ h.unit = f.unit ∧ h.vdims = f.vdims ∧ h.vmap = f.vmap ∧
+      ∀ j, inRange f.mesh.n j = true → h.data.get j = f.data.get j ∧ h.valid.get j = f.valid.get j := by
+  obtain ⟨g, hg⟩ := (pad_accepts f hf (metaInv_ok f hmi).1 pw hnd hdims hpos hbc mode).2
+  obtain ⟨h, hh⟩ := pad_crop_accepts f hf hmi pw hnd mode g hg
+  obtain ⟨r1, r2, r3, r4, r5⟩ := pad_crop_roundtrip f hf pw hnd mode g hg h hh
+  obtain ⟨a1, a2, a3, a4, a5⟩ := op_meta_kept f hmi (.pad pw mode) g hg
+  obtain ⟨b1, b2, b3, b4, _⟩ := op_meta_kept g a5 (.get (.region f.mesh.region)) h hh
+  exact ⟨g, h, hg, hh, r1, r2, r3, r4, by rw [b1, a1], by rw [b2, a2], by rw [b3, a3], by rw [b4, a4], r5⟩
+
+/-- Resampling to the field's own cell counts is always accepted and is the identity (on a mesh
+without boundary condition and subregions). -/
+theorem resample_id_total (f : Fld) (hf : FldWF f) (hmi : MetaInv f) :
+    ∃ g, resample f (f.mesh.n.map Int.ofNat) = .ok g ∧
+      g.mesh.region = f.mesh.region ∧ g.mesh.n = f.mesh.n ∧ g.mesh.bc = "" ∧ g.mesh.subs = [] ∧
+      g.nvdim = f.nvdim ∧ g.unit = f.unit ∧ g.vdims = f.vdims ∧ g.vmap = f.vmap ∧
+      ∀ j, inRange f.mesh.n j = true → g.data.get j = f.data.get j ∧ g.valid.get j = f.valid.get j := by
+  obtain ⟨g, hg⟩ := resample_accepts f hf.1 (metaInv_ok f hmi).1 (f.mesh.n.map Int.ofNat)
+    (by rw [List.length_map]; exact inv_n_length hf.1)
+    (by
+      intro k hk
+      obtain ⟨z, hz, rfl⟩ := List.mem_map.mp hk
+      obtain ⟨a, ha, rfl⟩ := mem_getD f.mesh.n z 0 hz
+      have := inv_n_pos hf.1 (show a < f.mesh.ndim by rw [← inv_n_length hf.1]; exact ha)
+      show (0 : Int) < ((f.mesh.n.getD a 0 : Nat) : Int)
+      exact_mod_cast this)
+  obtain ⟨r1, r2, r3⟩ := resample_id f hf g hg
+  obtain ⟨a1, a2, a3, a4, _⟩ := op_meta_kept f hmi (.resample _) g hg
+  obtain ⟨_, _, s3, _⟩ := op_subs_bc f (.resample _) g hg
+  obtain ⟨s3a, s3b⟩ := s3 _ rfl
+  exact ⟨g, hg, r1, r2, s3b, s3a, a1, a2, a3, a4, r3⟩
+
+/-- Refining first never changes a later resampling: if `g` is `f` refined by integer factors, then
+resampling `g` to ANY counts `n2` gives the same field as resampling `f` to `n2` — same region, same
+counts, same value and validity in every cell (`⌊⌊x·r⌋/r⌋ = ⌊x⌋`; `resample_refine_back_id` is the
+case `n2 = n`). -/
+theorem resample_via_refinement (f : Fld) (hf : FldWF f) (n : List Int) (g : Fld)
+    (hg : resample f n = .ok g) (r : Nat → Nat)
+    (hr : ∀ b, b < f.mesh.ndim → 0 < r b ∧ g.mesh.nAt b = r b * f.mesh.nAt b)
+    (n2 : List Int) (k k' : Fld) (hk : resample g n2 = .ok k) (hk' : resample f n2 = .ok k') :
+    k.mesh.region = k'.mesh.region ∧ k.mesh.n = k'.mesh.n ∧
+    ∀ j, inRange k.mesh.n j = true → k.data.get j = k'.data.get j ∧ k.valid.get j = k'.valid.get j := by
+  have hgwf := op_wf f hf (.resample n) trivial g hg
+  have hkwf := op_wf g hgwf (.resample n2) trivial k hk
+  obtain ⟨r1, _, _, _⟩ := resample_region f n g hg
+  obtain ⟨s1, s2, _, _⟩ := resample_region g n2 k hk
+  obtain ⟨t1, t2, _, _⟩ := resample_region f n2 k' hk'
+  have hgn : g.mesh.ndim = f.mesh.ndim := by unfold Mesh.ndim; rw [r1]
+  have hkn : k.mesh.ndim = f.mesh.ndim := by unfold Mesh.ndim; rw [s1, r1]
+  have hn : k.mesh.n = k'.mesh.n := by rw [s2, t2]
+  refine ⟨by rw [s1, t1, r1], hn, ?_⟩
+  intro j hj
+  obtain ⟨c2, c3⟩ := resample_source_cell g hgwf n2 k hk j hj
+  obtain ⟨d2, d3⟩ := resample_source_cell f hf n2 k' hk' j (by rw [← hn]; exact hj)
+  rw [hgn] at c2 c3
+  have hjb : ∀ b, b < f.mesh.ndim → j.getD b 0 < k.mesh.nAt b := fun b hb =>
+    inRange_getD _ _ hj b (by rw [inv_n_length hkwf.1, hkn]; exact hb)
+  have hin : inRange g.mesh.n
+      (tab f.mesh.ndim fun b => ((2 * j.getD b 0 + 1) * g.mesh.nAt b) / (2 * k.mesh.nAt b)) = true := by
+    have hlen : g.mesh.n.length = f.mesh.ndim := by rw [inv_n_length hgwf.1, hgn]
+    apply inRange_of_getD _ _ (by rw [hlen, tab_length])
+    intro b hb
+    rw [hlen] at hb
+    rw [getD_tab _ _ _ _ hb]
+    show _ < g.mesh.nAt b
+    have h1 := hjb b hb
+    have hgp := inv_n_pos hgwf.1 (show b < g.mesh.ndim by omega)
+    rw [Nat.div_lt_iff_lt_mul (by omega)]
+    calc (2 * j.getD b 0 + 1) * g.mesh.nAt b < (2 * k.mesh.nAt b) * g.mesh.nAt b :=
+          Nat.mul_lt_mul_of_pos_right (by omega) hgp
+      _ = g.mesh.nAt b * (2 * k.mesh.nAt b) := Nat.mul_comm _ _
+  obtain ⟨e2, e3⟩ := resample_refine f hf n g hg r hr _ hin
+  have hidx : (tab f.mesh.ndim fun b =>
+      (tab f.mesh.ndim fun b => ((2 * j.getD b 0 + 1) * g.mesh.nAt b) / (2 * k.mesh.nAt b)).getD b 0 / r b)
+      = tab f.mesh.ndim fun b => ((2 * j.getD b 0 + 1) * f.mesh.nAt b) / (2 * k'.mesh.nAt b) := by
+    apply tab_congr
+    intro b hb
+    rw [getD_tab _ _ _ _ hb, (hr b hb).2]
+    have : k.mesh.nAt b = k'.mesh.nAt b := by rw [nAt_def, nAt_def, hn]
+    rw [this]
+    exact via_div _ _ _ _ (hr b hb).1
+  rw [hidx] at e2 e3
+  rw [c2, c3, e2, e3, d2, d3]
+  exact ⟨rfl, rfl⟩
+
+
+/-- The same on inputs only: for every well-formed field in constructor state, all positive refinement
+factors and all positive target counts, the three resamplings are accepted and the two routes give
+the same object (mesh, metadata, values, validity). -/
+theorem resample_via_refinement_total (f : Fld) (hf : FldWF f) (hmi : MetaInv f) (r : Nat → Nat)
+    (hr : ∀ b, b < f.mesh.ndim → 0 < r b) (n2 : List Int) (hl : n2.length = f.mesh.ndim)
+    (hpos : ∀ k, k ∈ n2 → 0 < k) :
+    ∃ g k k', resample f (tab f.mesh.ndim fun b => ((r b * f.mesh.nAt b : Nat) : Int)) = .ok g ∧
+      resample g n2 = .ok k ∧ resample f n2 = .ok k' ∧
+      k.mesh = k'.mesh ∧ k.nvdim = k'.nvdim ∧ k.unit = k'.unit ∧ k.vdims = k'.vdims ∧ k.vmap = k'.vmap ∧
+      ∀ j, inRange k.mesh.n j = true → k.data.get j = k'.data.get j ∧ k.valid.get j = k'.valid.get j := by
+  have hmo := (metaInv_ok f hmi).1
+  obtain ⟨g, hg⟩ := resample_accepts f hf.1 hmo (tab f.mesh.ndim fun b => ((r b * f.mesh.nAt b : Nat) : Int))
+    (by rw [tab_length])
+    (by
+      intro k hk
+      obtain ⟨b, hb, rfl⟩ := mem_getD _ k 0 hk
+      rw [tab_length] at hb
+      rw [getD_tab _ _ _ _ hb]
+      have := Nat.mul_pos (hr b hb) (inv_n_pos hf.1 hb)
+      exact_mod_cast this)
+  have gwf := op_wf f hf (.resample _) trivial g hg
+  obtain ⟨m1, m2, m3, m4, gmi⟩ := op_meta_kept f hmi (.resample _) g hg
+  obtain ⟨r1, r2, _, _⟩ := resample_region f _ g hg
+  have hgn : g.mesh.ndim = f.mesh.ndim := by unfold Mesh.ndim; rw [r1]
+  obtain ⟨k, hk⟩ := resample_accepts g gwf.1 (metaInv_ok g gmi).1 n2 (by rw [hl, hgn]) hpos
+  obtain ⟨k', hk'⟩ := resample_accepts f hf.1 hmo n2 hl hpos
+  obtain ⟨n1, n2', n3, n4, _⟩ := op_meta_kept g gmi (.resample n2) k hk
+  obtain ⟨m1', m2', m3', m4', _⟩ := op_meta_kept f hmi (.resample n2) k' hk'
+  have hrr : ∀ b, b < f.mesh.ndim → 0 < r b ∧ g.mesh.nAt b = r b * f.mesh.nAt b := by
+    intro b hb
+    refine ⟨hr b hb, ?_⟩
+    rw [nAt_def, r2, List.getD_eq_getElem?_getD, List.getElem?_map]
+    have : (tab f.mesh.ndim fun b => ((r b * f.mesh.nAt b : Nat) : Int))[b]? = some ((r b * f.mesh.nAt b : Nat) : Int) := by
+      unfold tab
+      rw [List.getElem?_map, List.getElem?_range hb]; rfl
+    rw [this]
+    simp only [Option.map_some, Option.getD_some]
+    exact Int.toNat_natCast _
+  obtain ⟨q1, q2, q3⟩ := resample_via_refinement f hf _ g hg r hrr n2 k k' hk hk'
+  obtain ⟨_, _, s3, _⟩ := op_subs_bc g (.resample n2) k hk
+  obtain ⟨_, _, s3', _⟩ := op_subs_bc f (.resample n2) k' hk'
+  obtain ⟨u1, u2⟩ := s3 _ rfl
+  obtain ⟨u1', u2'⟩ := s3' _ rfl
+  have hmesh : k.mesh = k'.mesh := by
+    cases hkm : k.mesh; cases hkm' : k'.mesh
+    rw [hkm] at q1 q2 u1 u2; rw [hkm'] at q1 q2 u1' u2'
+    simp only at q1 q2 u1 u2 u1' u2'
+    simp only [Mesh.mk.injEq]
+    exact ⟨q1, q2, by rw [u2, u2'], by rw [u1, u1']⟩
+  exact ⟨g, k, k', hg, hk, hk', hmesh, by rw [n1, m1, m1'], by rw [n2', m2, m2'], by rw [n3, m3, m3'],
+    by rw [n4, m4, m4'], q3⟩
+
+/-! ## Padding modes at object level -/
+
+/-- Mode `wrap` at object level, every width (also wider than the axis): every cell of the padded field
+holds value and validity of a source cell whose centre is a whole number of edge lengths away along
+every axis. -/
+theorem pad_wrap_pointwise (f : Fld) (hf : FldWF f) (pw : List PadW) (hnd : (pw.map (·.dim)).Nodup)
+    (g : Fld) (h : padFld f pw .wrap = .ok g) (j : List Nat) :
+    ∃ i, inRange f.mesh.n i = true ∧
+      (∀ b, b < f.mesh.ndim → ∃ k : Int,
+        g.mesh.centreAx b ((j.getD b 0 : Nat) : Int)
+          = f.mesh.centreAx b ((i.getD b 0 : Nat) : Int) + (k : Rat) * (f.mesh.region.hi b - f.mesh.region.lo b)) ∧
+      g.data.get j = f.data.get i ∧ g.valid.get j = f.valid.get i := by
+  refine pad_pointwise_gen f hf pw hnd .wrap g h j (fun b i0 => ∃ k : Int,
+    g.mesh.centreAx b ((j.getD b 0 : Nat) : Int)
+      = f.mesh.centreAx b ((i0 : Nat) : Int) + (k : Rat) * (f.mesh.region.hi b - f.mesh.region.lo b)) ?_
+  intro b hb
+  obtain ⟨i0, h0, h1, k, hk⟩ := padSrc_wrap (f.mesh.nAt b) (sumW f.mesh (·.lo) pw b).toNat (j.getD b 0)
+    (inv_n_pos hf.1 hb)
+  refine ⟨i0, h0, h1, k, ?_⟩
+  rw [pad_centre f hf pw hnd .wrap g h b hb, centreAx_cast, ← cover f.mesh b (inv_n_pos hf.1 hb)]
+  have hj : ((j.getD b 0 : Nat) : Rat) - (((sumW f.mesh (·.lo) pw b).toNat : Nat) : Rat)
+      = (i0 : Rat) + (k : Rat) * (f.mesh.nAt b : Rat) := by exact_mod_cast hk
+  rw [hj]; ring
+
+/-- Mode `symmetric` at object level, every width: along every axis the source cell's centre is the
+padded cell's centre shifted by an even number of edge lengths, or its mirror image about a
+(periodically repeated) boundary face `lo + k·edge`. -/
+theorem pad_symmetric_pointwise (f : Fld) (hf : FldWF f) (pw : List PadW) (hnd : (pw.map (·.dim)).Nodup)
+    (g : Fld) (h : padFld f pw .symmetric = .ok g) (j : List Nat) :
+    ∃ i, inRange f.mesh.n i = true ∧
+      (∀ b, b < f.mesh.ndim → ∃ k : Int,
+        g.mesh.centreAx b ((j.getD b 0 : Nat) : Int)
+          = f.mesh.centreAx b ((i.getD b 0 : Nat) : Int)
+            + 2 * (k : Rat) * (f.mesh.region.hi b - f.mesh.region.lo b) ∨
+        g.mesh.centreAx b ((j.getD b 0 : Nat) : Int)
+          = 2 * (f.mesh.region.lo b + (k : Rat) * (f.mesh.region.hi b - f.mesh.region.lo b))
+            - f.mesh.centreAx b ((i.getD b 0 : Nat) : Int)) ∧
+      g.data.get j = f.data.get i ∧ g.valid.get j = f.valid.get i := by
+  refine pad_pointwise_gen f hf pw hnd .symmetric g h j (fun b i0 => ∃ k : Int,
+    g.mesh.centreAx b ((j.getD b 0 : Nat) : Int)
+      = f.mesh.centreAx b ((i0 : Nat) : Int) + 2 * (k : Rat) * (f.mesh.region.hi b - f.mesh.region.lo b) ∨
+    g.mesh.centreAx b ((j.getD b 0 : Nat) : Int)
+      = 2 * (f.mesh.region.lo b + (k : Rat) * (f.mesh.region.hi b - f.mesh.region.lo b))
+        - f.mesh.centreAx b ((i0 : Nat) : Int)) ?_
+  intro b hb
+  obtain ⟨i0, h0, h1, k, hk⟩ := padSrc_symmetric (f.mesh.nAt b) (sumW f.mesh (·.lo) pw b).toNat (j.getD b 0)
+    (inv_n_pos hf.1 hb)
+  refine ⟨i0, h0, h1, k, ?_⟩
+  rw [pad_centre f hf pw hnd .symmetric g h b hb, centreAx_cast, ← cover f.mesh b (inv_n_pos hf.1 hb)]
+  rcases hk with hk | hk
+  · left
+    have hj : ((j.getD b 0 : Nat) : Rat) - (((sumW f.mesh (·.lo) pw b).toNat : Nat) : Rat)
+        = (i0 : Rat) + (k : Rat) * (2 * (f.mesh.nAt b : Rat)) := by exact_mod_cast hk
+    rw [hj]; ring
+  · right
+    have hj : ((j.getD b 0 : Nat) : Rat) - (((sumW f.mesh (·.lo) pw b).toNat : Nat) : Rat)
+        = -1 - (i0 : Rat) + (k : Rat) * (2 * (f.mesh.nAt b : Rat)) := by exact_mod_cast hk
+    rw [hj]; ring
+
+/-- Mode `reflect` at object level, every width (axes of at least two cells): along every axis the
+source cell's centre is the padded cell's centre shifted by a multiple of `2(n-1)` cells, or its
+mirror image about the centre of a (periodically repeated) boundary cell `k(n-1)`. -/
+theorem pad_reflect_pointwise (f : Fld) (hf : FldWF f) (pw : List PadW) (hnd : (pw.map (·.dim)).Nodup)
+    (hn2 : ∀ b, b < f.mesh.ndim → 2 ≤ f.mesh.nAt b)
+    (g : Fld) (h : padFld f pw .reflect = .ok g) (j : List Nat) :
+    ∃ i, inRange f.mesh.n i = true ∧
+      (∀ b, b < f.mesh.ndim → ∃ k : Int,
+        g.mesh.centreAx b ((j.getD b 0 : Nat) : Int)
+          = f.mesh.centreAx b ((i.getD b 0 : Nat) : Int)
+            + 2 * (k : Rat) * ((f.mesh.nAt b : Rat) - 1) * f.mesh.cellAt b ∨
+        g.mesh.centreAx b ((j.getD b 0 : Nat) : Int)
+          = 2 * (f.mesh.region.lo b + ((k : Rat) * ((f.mesh.nAt b : Rat) - 1) + 1 / 2) * f.mesh.cellAt b)
+            - f.mesh.centreAx b ((i.getD b 0 : Nat) : Int)) ∧
+      g.data.get j = f.data.get i ∧ g.valid.get j = f.valid.get i := by
+  refine pad_pointwise_gen f hf pw hnd .reflect g h j (fun b i0 => ∃ k : Int,
+    g.mesh.centreAx b ((j.getD b 0 : Nat) : Int)
+      = f.mesh.centreAx b ((i0 : Nat) : Int) + 2 * (k : Rat) * ((f.mesh.nAt b : Rat) - 1) * f.mesh.cellAt b ∨
+    g.mesh.centreAx b ((j.getD b 0 : Nat) : Int)
+      = 2 * (f.mesh.region.lo b + ((k : Rat) * ((f.mesh.nAt b : Rat) - 1) + 1 / 2) * f.mesh.cellAt b)
+        - f.mesh.centreAx b ((i0 : Nat) : Int)) ?_
+  intro b hb
+  obtain ⟨i0, h0, h1, k, hk⟩ := padSrc_reflect (f.mesh.nAt b) (sumW f.mesh (·.lo) pw b).toNat (j.getD b 0)
+    (hn2 b hb)
+  refine ⟨i0, h0, h1, k, ?_⟩
+  rw [pad_centre f hf pw hnd .reflect g h b hb, centreAx_cast]
+  rcases hk with hk | hk
+  · left
+    have hj : ((j.getD b 0 : Nat) : Rat) - (((sumW f.mesh (·.lo) pw b).toNat : Nat) : Rat)
+        = (i0 : Rat) + (k : Rat) * (2 * (f.mesh.nAt b : Rat) - 2) := by exact_mod_cast hk
+    rw [hj]; ring
+  · right
+    have hj : ((j.getD b 0 : Nat) : Rat) - (((sumW f.mesh (·.lo) pw b).toNat : Nat) : Rat)
+        = -(i0 : Rat) + (k : Rat) * (2 * (f.mesh.nAt b : Rat) - 2) := by exact_mod_cast hk
+    rw [hj]; ring
+
+/-- Mode `edge` at object level: every padded cell holds the source cell nearest to it — index 0 in
+front of the source, `n-1` behind it, `j - L` inside, on every axis. -/
+theorem pad_edge_pointwise (f : Fld) (hf : FldWF f) (pw : List PadW) (hnd : (pw.map (·.dim)).Nodup)
+    (g : Fld) (h : padFld f pw .edge = .ok g) (j : List Nat) :
+    ∃ i, inRange f.mesh.n i = true ∧
+      (∀ b, b < f.mesh.ndim →
+        (j.getD b 0 < (sumW f.mesh (·.lo) pw b).toNat → i.getD b 0 = 0) ∧
+        ((sumW f.mesh (·.lo) pw b).toNat + f.mesh.nAt b ≤ j.getD b 0 → i.getD b 0 = f.mesh.nAt b - 1) ∧
+        ((sumW f.mesh (·.lo) pw b).toNat ≤ j.getD b 0 → j.getD b 0 < (sumW f.mesh (·.lo) pw b).toNat + f.mesh.nAt b →
+          i.getD b 0 = j.getD b 0 - (sumW f.mesh (·.lo) pw b).toNat)) ∧
+      g.data.get j = f.data.get i ∧ g.valid.get j = f.valid.get i := by
+  refine pad_pointwise_gen f hf pw hnd .edge g h j (fun b i0 =>
+    (j.getD b 0 < (sumW f.mesh (·.lo) pw b).toNat → i0 = 0) ∧
+    ((sumW f.mesh (·.lo) pw b).toNat + f.mesh.nAt b ≤ j.getD b 0 → i0 = f.mesh.nAt b - 1) ∧
+    ((sumW f.mesh (·.lo) pw b).toNat ≤ j.getD b 0 → j.getD b 0 < (sumW f.mesh (·.lo) pw b).toNat + f.mesh.nAt b →
+      i0 = j.getD b 0 - (sumW f.mesh (·.lo) pw b).toNat)) ?_
+  intro b hb
+  have hn := inv_n_pos hf.1 hb
+  by_cases hin : (sumW f.mesh (·.lo) pw b).toNat ≤ j.getD b 0 ∧ j.getD b 0 < (sumW f.mesh (·.lo) pw b).toNat + f.mesh.nAt b
+  · refine ⟨_, padSrc_inside .edge _ _ _ hin.1 hin.2, by omega, fun h => by omega, fun h => by omega, fun _ _ => rfl⟩
+  · rw [padSrc_edge _ _ _ hin]
+    by_cases hlt : j.getD b 0 < (sumW f.mesh (·.lo) pw b).toNat
+    · rw [if_pos hlt]
+      exact ⟨0, rfl, hn, fun _ => rfl, fun h => by omega, fun h1 h2 => by omega⟩
+    · rw [if_neg hlt]
+      exact ⟨_, rfl, by omega, fun h => absurd h hlt, fun _ => rfl, fun h1 h2 => absurd ⟨h1, h2⟩ hin⟩
+
+/-- Mode `constant` at object level: a cell outside the source along some axis holds zeros and is
+invalid. -/
+theorem pad_constant_pointwise (f : Fld) (hf : FldWF f) (pw : List PadW) (hnd : (pw.map (·.dim)).Nodup)
+    (g : Fld) (h : padFld f pw .constant = .ok g) (j : List Nat) (b : Nat) (hb : b < f.mesh.ndim)
+    (hout : ¬ ((sumW f.mesh (·.lo) pw b).toNat ≤ j.getD b 0 ∧
+      j.getD b 0 < (sumW f.mesh (·.lo) pw b).toNat + f.mesh.nAt b)) :
+    g.data.get j = List.replicate f.nvdim 0 ∧ g.valid.get j = false :=
+  pad_fill_axis f hf pw hnd .constant g h j b hb (padSrc_constant _ _ _ hout)
+
+/-- Paddings of one field are restrictions of one continuation, in every mode and for all widths: if the
+total widths of `pw'` do not exceed those of `pw` on any side, then extracting the region of the
+smaller padding from the larger padded field is accepted and returns the smaller padding — same
+region, same cell counts, every value and validity bit.  (`pad_crop_roundtrip` is the case of no
+padding at all.) -/
+theorem pad_crop_smaller (f : Fld) (hf : FldWF f) (pw pw' : List PadW)
+    (hnd : (pw.map (·.dim)).Nodup) (hnd' : (pw'.map (·.dim)).Nodup) (mode : PadMode) (g g' : Fld)
+    (hg : padFld f pw mode = .ok g) (hg' : padFld f pw' mode = .ok g')
+    (hle : ∀ b, b < f.mesh.ndim → sumW f.mesh (·.lo) pw' b ≤ sumW f.mesh (·.lo) pw b ∧
+      sumW f.mesh (·.hi) pw' b ≤ sumW f.mesh (·.hi) pw b)
+    (hmi : MetaInv f) :
+    ∃ h, getItem g (.region g'.mesh.region) = .ok h ∧
+      h.mesh.region = g'.mesh.region ∧ h.mesh.n = g'.mesh.n ∧
+      ∀ j, inRange g'.mesh.n j = true → h.data.get j = g'.data.get j ∧ h.valid.get j = g'.valid.get j := by
+  have hgwf := op_wf f hf (.pad pw mode) hnd g hg
+  have hgwf' := op_wf f hf (.pad pw' mode) hnd' g' hg'
+  obtain ⟨p1, p2, _, _⟩ := padFld_inv f hf pw hnd mode g hg
+  obtain ⟨p1', p2', _, _⟩ := padFld_inv f hf pw' hnd' mode g' hg'
+  obtain ⟨e1, e2, e3, e4, e5, _, e7, e8⟩ :=
+    padMesh_inv f.mesh hf.1 pw (fun b _ => (p2 b).1) (fun b _ => (p2 b).2) g.mesh p1
+  obtain ⟨e1', e2', e3', e4', e5', _, e7', e8'⟩ :=
+    padMesh_inv f.mesh hf.1 pw' (fun b _ => (p2' b).1) (fun b _ => (p2' b).2) g'.mesh p1'
+  -- abbreviations
+  obtain ⟨L, hL⟩ : ∃ L : Nat → Nat, ∀ b, L b = (sumW f.mesh (·.lo) pw b).toNat := ⟨_, fun _ => rfl⟩
+  obtain ⟨L', hL'⟩ : ∃ L' : Nat → Nat, ∀ b, L' b = (sumW f.mesh (·.lo) pw' b).toNat := ⟨_, fun _ => rfl⟩
+  obtain ⟨H, hH⟩ : ∃ H : Nat → Nat, ∀ b, H b = (sumW f.mesh (·.hi) pw b).toNat := ⟨_, fun _ => rfl⟩
+  obtain ⟨H', hH'⟩ : ∃ H' : Nat → Nat, ∀ b, H' b = (sumW f.mesh (·.hi) pw' b).toNat := ⟨_, fun _ => rfl⟩
+  have hLL : ∀ b, b < f.mesh.ndim → L' b ≤ L b ∧ H' b ≤ H b := by
+    intro b hb
+    obtain ⟨c1, c2⟩ := hle b hb
+    have := (p2 b); have := (p2' b)
+    rw [hL, hL', hH, hH']
+    omega
+  have hal : SubAligned g.mesh g'.mesh.region (fun b => L b - L' b)
+      (fun b => L b - L' b + (f.mesh.nAt b + L' b + H' b)) := by
+    refine ⟨by show g'.mesh.ndim = g.mesh.ndim; rw [e1, e1'], by rw [e7', e1], ?_⟩
+    intro b hb
+    rw [e1] at hb
+    obtain ⟨h1, h2, h3, blk⟩ := e8 b hb
+    obtain ⟨h1', h2', h3', blk'⟩ := e8' b hb
+    rw [← hL, ← hH] at h1
+    rw [← hL] at h2
+    rw [← hH] at h3
+    rw [← hL', ← hH'] at h1'
+    rw [← hL'] at h2'
+    rw [← hH'] at h3'
+    obtain ⟨l1, l2⟩ := hLL b hb
+    have hn := inv_n_pos hf.1 hb
+    have hc : g.mesh.cellAt b = f.mesh.cellAt b := blk.cell.symm
+    have cL : ((L b - L' b : Nat) : Rat) = (L b : Rat) - (L' b : Rat) := by
+      push_cast [Nat.cast_sub l1]; ring
+    refine ⟨?_, ?_, ?_, ?_⟩
+    · show L b - L' b < L b - L' b + (f.mesh.nAt b + L' b + H' b)
+      omega
+    · show L b - L' b + (f.mesh.nAt b + L' b + H' b) ≤ g.mesh.nAt b
+      rw [h1]; omega
+    · show g'.mesh.region.lo b = g.mesh.region.lo b + ((L b - L' b : Nat) : Rat) * g.mesh.cellAt b
+      rw [h2', h2, hc, cL]; ring
+    · show g'.mesh.region.hi b
+        = g.mesh.region.lo b + ((L b - L' b + (f.mesh.nAt b + L' b + H' b) : Nat) : Rat) * g.mesh.cellAt b
+      rw [h3', h2, hc, hi_eq f.mesh b hn]
+      push_cast
+      rw [cL]; ring
+  obtain ⟨_, _, hgmi⟩ := op_meta_passthrough f hmi (.pad pw mode) g hg
+  obtain ⟨h, hh⟩ := (getitem_region_accepts g hgwf (metaInv_ok g hgmi).1 g'.mesh.region
+    (boxIn_of_aligned g.mesh hgwf.1 _ _ _ hal) (by rw [e7', e1])).2
+  refine ⟨h, hh, ?_⟩
+  obtain ⟨a1, a2, a3, a4, a5, a6, a7, _, _, a10⟩ :=
+    getitem_aligned_pointwise g hgwf g'.mesh.region _ _ hal h hh
+  have hn : h.mesh.n = g'.mesh.n := by
+    apply list_ext_getD _ _ 0 (by rw [a3, e2', e1])
+    intro b hb
+    rw [a3, e1] at hb
+    have := (a1 b (by rw [e1]; exact hb)).2.2
+    rw [nAt_def] at this
+    rw [this]
+    show _ = g'.mesh.nAt b
+    rw [(e8' b hb).1, ← hL', ← hH']
+    show L b - L' b + (f.mesh.nAt b + L' b + H' b) - (L b - L' b) = f.mesh.nAt b + L' b + H' b
+    omega
+  refine ⟨?_, hn, ?_⟩
+  · apply region_ext _ _ (by show h.mesh.ndim = g'.mesh.ndim; rw [a2, e1, e1'])
+      (by rw [e7']; exact e1'.symm) (by rw [a4, e1]; exact e1'.symm)
+      (fun b hb => (a1 b (by rw [e1]; rw [show g'.mesh.region.pmin.length = g'.mesh.ndim from rfl, e1'] at hb; exact hb)).1)
+      (fun b hb => (a1 b (by rw [e1]; rw [show g'.mesh.region.pmin.length = g'.mesh.ndim from rfl, e1'] at hb; exact hb)).2.1)
+      (by rw [a5, e3, e3']) (by rw [a6, e4, e4']) (by rw [a7, e5, e5'])
+  · intro j hj
+    obtain ⟨q2, q3⟩ := a10 j (by rw [hn]; exact hj)
+    obtain ⟨_, r2, r3⟩ := pad_rule f hf pw hnd mode g hg
+      (tab g.mesh.ndim fun b => L b - L' b + j.getD b 0)
+    obtain ⟨_, r2', r3'⟩ := pad_rule f hf pw' hnd' mode g' hg' j
+    have hidx : padSrcIdx mode f.mesh.n (fun b => (sumW f.mesh (·.lo) pw b, sumW f.mesh (·.hi) pw b))
+        (tab g.mesh.ndim fun b => L b - L' b + j.getD b 0)
+        = padSrcIdx mode f.mesh.n (fun b => (sumW f.mesh (·.lo) pw' b, sumW f.mesh (·.hi) pw' b)) j := by
+      unfold padSrcIdx
+      rw [inv_n_length hf.1]
+      have hax : ∀ b, b < f.mesh.ndim →
+          padSrc mode (f.mesh.n.getD b 0) (sumW f.mesh (·.lo) pw b).toNat
+            ((tab g.mesh.ndim fun b => L b - L' b + j.getD b 0).getD b 0)
+          = padSrc mode (f.mesh.n.getD b 0) (sumW f.mesh (·.lo) pw' b).toNat (j.getD b 0) := by
+        intro b hb
+        rw [getD_tab _ _ _ _ (by rw [e1]; exact hb)]
+        have l1 := (hLL b hb).1
+        have hs := padSrc_shift mode (f.mesh.n.getD b 0) (L' b) (L b - L' b) (j.getD b 0)
+        have e1 : L' b + (L b - L' b) = L b := by omega
+        have e2 : j.getD b 0 + (L b - L' b) = L b - L' b + j.getD b 0 := by omega
+        rw [e1, e2] at hs
+        rw [← hL, ← hL']
+        exact hs
+      have hall : allLt f.mesh.ndim (fun b =>
+            (padSrc mode (f.mesh.n.getD b 0) (sumW f.mesh (·.lo) pw b).toNat
+              ((tab g.mesh.ndim fun b => L b - L' b + j.getD b 0).getD b 0)).isSome)
+          = allLt f.mesh.ndim (fun b =>
+            (padSrc mode (f.mesh.n.getD b 0) (sumW f.mesh (·.lo) pw' b).toNat (j.getD b 0)).isSome) := by
+        apply allLt_congr'
+        intro b hb
+        rw [hax b hb]
+      simp only
+      rw [hall]
+      congr 1
+      congr 1
+      apply tab_congr
+      intro b hb
+      rw [hax b hb]
+    rw [hidx] at r2 r3
+    rw [q2, q3, r2, r3, r2', r3']
+    exact ⟨rfl, rfl⟩
+
+/-! ## Extraction by name, index slices -/
+
+/-- Extraction by subregion name is extraction by that subregion's region: for a stored subregion
+of whole cells (names, units, tolerance of the mesh region, as the setter stores it) `mesh[name] =
+mesh[mesh.subregions[name]]` and `field[name] = field[field.mesh.subregions[name]]`, as objects. -/
+theorem getitem_name_eq_region (f : Fld) (hf : FldWF f) (name : String) (s : Region)
+    (hfind : findSub f.mesh.subs name = some s) (k1 k2 : Nat → Nat) (hal : SubAligned f.mesh s k1 k2)
+    (hd : s.dims = f.mesh.region.dims) (hu : s.units = f.mesh.region.units) (ht : s.tol = f.mesh.region.tol) :
+    getMesh f.mesh (.name name) = getMesh f.mesh (.region s) ∧
+    getItem f (.name name) = getItem f (.region s) := by
+  have hinv := hf.1
+  have key : getMesh f.mesh (.name name) = getMesh f.mesh (.region s) := by
+    obtain ⟨g1, hg1, hn1⟩ := getName_ok f.mesh hinv name s hfind k1 k2 hal
+    have hbox := boxIn_of_aligned f.mesh hinv s k1 k2 hal
+    obtain ⟨g2, hg2, hn2⟩ := getRegion_ok f.mesh hinv s hbox hal.2.1
+    show getName f.mesh name = getRegion f.mesh s
+    rw [hg1, hg2]
+    congr 1
+    obtain ⟨a1, _, _, _⟩ := getName_inv f.mesh hinv name s hfind k1 k2 hal g1 hg1
+    obtain ⟨b1, b2⟩ := getMesh_bare f.mesh (.name name) g1 hg1
+    obtain ⟨c1, c2⟩ := getMesh_bare f.mesh (.region s) g2 hg2
+    obtain ⟨e1, e2, e3, e4, e5, e6, _, _, _⟩ := getRegion_inv f.mesh hinv s hbox g2 hg2
+    have hax := getRegion_aligned_exact f.mesh hinv s k1 k2 hal g2 hg2
+    have hreg : g2.region = s := by
+      apply region_ext s g2.region (by show g2.ndim = s.ndim; rw [e1, hal.1]) (by rw [hal.2.1]; exact hal.1.symm)
+        (by rw [e6]; exact hal.1.symm)
+        (fun a ha => (hax a (by rw [← hal.1]; exact ha)).1)
+        (fun a ha => (hax a (by rw [← hal.1]; exact ha)).2.1)
+        (by rw [e3, hd]) (by rw [e4, hu]) (by rw [e5, ht])
+    have hn : g1.n = g2.n := by
+      rw [hn1, hn2]
+      apply tab_congr
+      intro a ha
+      have h3 := (hax a ha).2.2
+      rw [nAt_def, hn2, getD_tab _ _ _ _ ha] at h3
+      exact h3.symm
+    cases g1; cases g2
+    simp only at a1 b1 b2 c1 c2 hreg hn
+    simp only [Mesh.mk.injEq]
+    exact ⟨by rw [a1, hreg], hn, by rw [b2, c2], by rw [b1, c1]⟩
+  refine ⟨key, ?_⟩
+  unfold getItem
+  rw [key]
+
+/-- The index slices of the mesh's own region are the full slices `0 : n`. -/
+theorem region2slices_whole (m : Mesh) (hm : m.Inv) :
+    region2slices m m.region = .ok (tab m.ndim fun a => (0, m.nAt a)) :=
+  (region2slices_spec m hm m.region _ _ (whole_aligned m hm)).1
+
+/-- Index slices are monotone in the region: a box inside another box (any boxes, aligned or not) gets
+slices inside the other's slices on every axis. -/
+theorem region2slices_mono (m : Mesh) (hm : m.Inv) (r1 r2 : Region) (s1 s2 : List (Nat × Nat))
+    (h1 : region2slices m r1 = .ok s1) (h2 : region2slices m r2 = .ok s2)
+    (hin : ∀ a, a < m.ndim → r2.lo a ≤ r1.lo a ∧ r1.hi a ≤ r2.hi a) :
+    ∀ a, a < m.ndim → (s2.getD a (0, 0)).1 ≤ (s1.getD a (0, 0)).1 ∧ (s1.getD a (0, 0)).2 ≤ (s2.getD a (0, 0)).2 := by
+  intro a ha
+  rw [region2slices_inv m r1 s1 h1, region2slices_inv m r2 s2 h2, getD_tab _ _ _ _ ha, getD_tab _ _ _ _ ha]
+  have hc := inv_cell_pos hm ha
+  obtain ⟨c1, c2⟩ := hin a ha
+  exact ⟨indexAx_mono m a _ _ hc (by linarith), Nat.succ_le_succ (indexAx_mono m a _ _ hc (by linarith))⟩
+
+/-- Index slices of an ARBITRARY box (test points `lo + cell/2`, `hi - cell/2` inside the edge): along
+each axis the slice consists exactly of the cells whose centre lies in `(lo, hi]` — a cell centre
+exactly on the lower face of the box is left out, one on the upper face is taken. -/
+theorem region2slices_cells (m : Mesh) (hm : m.Inv) (r : Region) (s : List (Nat × Nat))
+    (h : region2slices m r = .ok s) (a : Nat) (ha : a < m.ndim)
+    (hlo : m.region.lo a ≤ r.lo a + m.cellAt a / 2 ∧ r.lo a + m.cellAt a / 2 < m.region.hi a)
+    (hhi : m.region.lo a ≤ r.hi a - m.cellAt a / 2 ∧ r.hi a - m.cellAt a / 2 ≤ m.region.hi a)
+    (i : Nat) (hi : i < m.nAt a) :
+    ((s.getD a (0, 0)).1 ≤ i ∧ i < (s.getD a (0, 0)).2) ↔
+      (r.lo a < m.centreAx a (i : Int) ∧ m.centreAx a (i : Int) ≤ r.hi a) := by
+  rw [region2slices_inv m r s h, getD_tab _ _ _ _ ha]
+  have hc := inv_cell_pos hm ha
+  have hn := inv_n_pos hm ha
+  have hlt := inv_lo_lt_hi hm ha
+  obtain ⟨p1, p2⟩ := index_contains m a (r.lo a + m.cellAt a / 2) hn hlt hlo.1 hlo.2.le
+  obtain ⟨q1, q2⟩ := index_contains m a (r.hi a - m.cellAt a / 2) hn hlt hhi.1 hhi.2
+  have hq := indexAx_lt m a (r.hi a - m.cellAt a / 2) hn
+  rw [centreAx_cast]
+  simp only
+  set k1 := m.indexAx a (r.lo a + m.cellAt a / 2) with hk1
+  set k2 := m.indexAx a (r.hi a - m.cellAt a / 2) with hk2
+  have p2' : r.lo a + m.cellAt a / 2 < m.region.lo a + ((k1 : Rat) + 1) * m.cellAt a := by
+    rcases p2 with p2 | ⟨_, p2⟩
+    · exact p2
+    · rw [p2] at hlo; exact absurd hlo.2 (lt_irrefl _)
+  constructor
+  · rintro ⟨a1, a2⟩
+    have b1 : (k1 : Rat) ≤ (i : Rat) := by exact_mod_cast a1
+    have b2 : (i : Rat) ≤ (k2 : Rat) := by exact_mod_cast (Nat.lt_succ_iff.mp a2)
+    constructor <;> nlinarith
+  · rintro ⟨a1, a2⟩
+    have b1 : (k1 : Rat) < (i : Rat) + 1 := by
+      by_contra hcon; rw [not_lt] at hcon
+      have := mul_le_mul_of_nonneg_right hcon hc.le; nlinarith
+    have n1 : k1 < i + 1 := by exact_mod_cast b1
+    refine ⟨by omega, ?_⟩
+    rcases q2 with q2 | ⟨q2, q3⟩
+    · have b2 : (i : Rat) < (k2 : Rat) + 1 := by
+        by_contra hcon; rw [not_lt] at hcon
+        have := mul_le_mul_of_nonneg_right hcon hc.le; nlinarith
+      have n2 : i < k2 + 1 := by exact_mod_cast b2
+      exact n2
+    · omega
+
+/-! ## Requests at non-finite coordinates -/
+
+/-- The extended model (coordinates may be `±inf` / `nan`, IEEE comparisons) refines the rational one:
+on finite values `_sel_convert_input`, `Mesh.sel` and `Field.sel` are unchanged. -/
+theorem sel_ext_refines (f : Fld) (dim : String) (arg : SelArg) :
+    selConvertE f.mesh dim arg.toE = selConvert f.mesh dim arg ∧
+    selMeshE f.mesh dim arg.toE = selMesh f.mesh dim arg ∧
+    selFldE f dim arg.toE = selFld f dim arg :=
+  ⟨selConvertE_fin _ _ _, selMeshE_fin _ _ _, selFldE_fin _ _ _⟩
+
+/-- A selection at a non-finite coordinate — a point at `+inf`, `-inf` or `nan`, a range with such a
+bound in either position — is refused by `_sel_convert_input`, `Mesh.sel` and `Field.sel`: `±inf`
+fail the range test; `nan` passes it (both comparisons are false) and is refused by the containment
+test of `point2index`; `sorted` leaves a pair with a `nan` in the given order. -/
+theorem sel_nonfinite_rejected (f : Fld) (hf : f.mesh.Inv) (dim : String) (arg : SelArgE)
+    (h : arg.NonFinite) :
+    (∃ e, selConvertE f.mesh dim arg = .error e) ∧ (∃ e, selMeshE f.mesh dim arg = .error e) ∧
+    (∃ e, selFldE f dim arg = .error e) := by
+  obtain ⟨e, he⟩ := selConvertE_nonfin f.mesh hf dim arg h
+  exact ⟨⟨e, he⟩, ⟨e, by unfold selMeshE; rw [he]⟩, ⟨e, by unfold selFldE; rw [he]⟩⟩
+
+/-- Accepted ⇔ finite and accepted by the rational model (for all three levels). -/
+theorem sel_ext_ok_iff (f : Fld) (hf : f.mesh.Inv) (dim : String) (arg : SelArgE) :
+    ((∃ r, selConvertE f.mesh dim arg = .ok r) ↔
+      ∃ a : SelArg, arg = a.toE ∧ ∃ r, selConvert f.mesh dim a = .ok r) ∧
+    ((∃ g, selMeshE f.mesh dim arg = .ok g) ↔
+      ∃ a : SelArg, arg = a.toE ∧ ∃ g, selMesh f.mesh dim a = .ok g) ∧
+    ((∃ o, selFldE f dim arg = .ok o) ↔
+      ∃ a : SelArg, arg = a.toE ∧ ∃ o, selFld f dim a = .ok o) := by
+  rcases selArgE_cases arg with ⟨a, rfl⟩ | hn
+  · have inj : ∀ a' : SelArg, a.toE = a'.toE → a = a' := by
+      intro a' h
+      cases a <;> cases a' <;> simp only [SelArg.toE] at h <;> first | rfl | cases h
+      · rfl
+      · rfl
+    refine ⟨?_, ?_, ?_⟩
+    · rw [selConvertE_fin]
+      exact ⟨fun h => ⟨a, rfl, h⟩, fun ⟨a', ha', h⟩ => by rw [inj a' ha']; exact h⟩
+    · rw [selMeshE_fin]
+      exact ⟨fun h => ⟨a, rfl, h⟩, fun ⟨a', ha', h⟩ => by rw [inj a' ha']; exact h⟩
+    · rw [selFldE_fin]
+      exact ⟨fun h => ⟨a, rfl, h⟩, fun ⟨a', ha', h⟩ => by rw [inj a' ha']; exact h⟩
+  · obtain ⟨⟨e1, h1⟩, ⟨e2, h2⟩, ⟨e3, h3⟩⟩ := sel_nonfinite_rejected f hf dim arg hn
+    refine ⟨?_, ?_, ?_⟩
+    · constructor
+      · rintro ⟨r, hr⟩; rw [h1] at hr; cases hr
+      · rintro ⟨a, rfl, _⟩; exact absurd hn (toE_not_nonfinite a)
+    · constructor
+      · rintro ⟨r, hr⟩; rw [h2] at hr; cases hr
+      · rintro ⟨a, rfl, _⟩; exact absurd hn (toE_not_nonfinite a)
+    · constructor
+      · rintro ⟨r, hr⟩; rw [h3] at hr; cases hr
+      · rintro ⟨a, rfl, _⟩; exact absurd hn (toE_not_nonfinite a)
+
+/-- `Mesh.point2index` on points that may have non-finite coordinates: on finite points it is the
+rational lookup; it answers exactly on the finite points the rational lookup answers on; a
+non-finite coordinate on any axis of the mesh is refused. -/
+theorem point2index_ext (m : Mesh) :
+    (∀ p : List Rat, point2indexE m (p.map .fin) = m.point2index p) ∧
+    (∀ (p : List ExtRat) (i : List Nat),
+      point2indexE m p = .ok i ↔ ∃ q : List Rat, p = q.map .fin ∧ m.point2index q = .ok i) ∧
+    (∀ (p : List ExtRat) (a : Nat), a < m.ndim → (∀ q, p.getD a (.fin 0) ≠ .fin q) →
+      ∃ e, point2indexE m p = .error e) :=
+  ⟨point2indexE_fin m, point2indexE_ok_iff m, fun p a ha hx => point2indexE_nonfin m p a ha hx⟩
+
+/-- On finite corners `mesh[region]`, `field[region]` and `region2slices` of the extended model are
+those of the rational model. -/
+theorem getitem_ext_refines (f : Fld) (pmin pmax : List Rat) :
+    getRegionE f.mesh (pmin.map .fin) (pmax.map .fin) = getRegion f.mesh (boxRegion pmin pmax) ∧
+    getItemE f (pmin.map .fin) (pmax.map .fin) = getItem f (.region (boxRegion pmin pmax)) ∧
+    region2slicesE f.mesh (pmin.map .fin) (pmax.map .fin) = region2slices f.mesh (boxRegion pmin pmax) :=
+  ⟨getRegionE_fin _ _ _, getItemE_fin _ _ _, region2slicesE_fin _ _ _⟩
+
+/-- A region built from corner points with a non-finite coordinate (`Region(p1, p2)` accepts it: the
+edge is not zero) is refused by `mesh[region]`, `field[region]` and — on an axis of the mesh — by
+`region2slices`. -/
+theorem getitem_nonfinite_rejected (f : Fld) (p1 p2 : List ExtRat) (a : Nat) (ha : a < p1.length)
+    (hx : (∀ q, p1.getD a (.fin 0) ≠ .fin q) ∨ (∀ q, p2.getD a (.fin 0) ≠ .fin q))
+    (pmin pmax : List ExtRat) (hbox : boxMkE? p1 p2 = .ok (pmin, pmax)) :
+    (∃ e, getRegionE f.mesh pmin pmax = .error e) ∧ (∃ e, getItemE f pmin pmax = .error e) ∧
+    (a < f.mesh.ndim → ∃ e, region2slicesE f.mesh pmin pmax = .error e) := by
+  obtain ⟨l1, l2, hnf⟩ := boxMkE_nonfin p1 p2 pmin pmax hbox a ha hx
+  have hnot : ¬ ((∃ l : List Rat, pmin = l.map .fin) ∧ ∃ l : List Rat, pmax = l.map .fin) := by
+    rintro ⟨⟨u, hu⟩, ⟨v, hv⟩⟩
+    rcases hnf with h | h
+    · rw [hu] at h; exact h _ (getD_map_fin u a)
+    · rw [hv] at h; exact h _ (getD_map_fin v a)
+  obtain ⟨e, he⟩ := getRegionE_nonfin f.mesh pmin pmax hnot
+  exact ⟨⟨e, he⟩, ⟨e, by unfold getItemE; rw [he]⟩, fun ha' => region2slicesE_nonfin f.mesh pmin pmax a ha' hnf⟩
+
+/-! ## Any point of a cell; ties and closed form of resampling -/
+
+/-- Ties as the code resolves them: a target cell whose centre lies exactly ON the face between source
+cells `i-1` and `i` along some axis takes, along that axis, the upper cell `i` (the nearest-coordinate
+lookup finds two equally near source centres and returns the one with the larger index). -/
+theorem resample_tie (f : Fld) (hf : FldWF f) (n : List Int) (g : Fld) (h : resample f n = .ok g)
+    (j : List Nat) (hj : inRange g.mesh.n j = true) (b : Nat) (hb : b < f.mesh.ndim) (i : Nat)
+    (hi : i < f.mesh.nAt b)
+    (hface : g.mesh.centreAx b ((j.getD b 0 : Nat) : Int) = f.mesh.region.lo b + (i : Rat) * f.mesh.cellAt b) :
+    ∃ s, g.data.get j = f.data.get s ∧ g.valid.get j = f.valid.get s ∧ s.getD b 0 = i ∧
+      absR (f.mesh.centreAx b ((i : Nat) : Int) - g.mesh.centreAx b ((j.getD b 0 : Nat) : Int)) = f.mesh.cellAt b / 2 ∧
+      (0 < i → absR (f.mesh.centreAx b ((i - 1 : Nat) : Int) - g.mesh.centreAx b ((j.getD b 0 : Nat) : Int))
+        = f.mesh.cellAt b / 2) := by
+  obtain ⟨_, p2, p3⟩ := resample_pointwise f hf n g h j hj
+  have hc := inv_cell_pos hf.1 hb
+  refine ⟨_, p2, p3, ?_, ?_, ?_⟩
+  · rw [getD_tab _ _ _ _ hb, hface]
+    apply indexAx_eq_of_bounds f.mesh b _ i hi hc
+    · exact le_refl _
+    · nlinarith
+  · rw [hface, centreAx_cast, absR_eq_abs]
+    have : f.mesh.region.lo b + ((i : Rat) + 1 / 2) * f.mesh.cellAt b - (f.mesh.region.lo b + (i : Rat) * f.mesh.cellAt b)
+        = f.mesh.cellAt b / 2 := by ring
+    rw [this, abs_of_pos (by linarith)]
+  · intro hi0
+    rw [hface, centreAx_cast, absR_eq_abs]
+    have hcast : ((i - 1 : Nat) : Rat) = (i : Rat) - 1 := by
+      push_cast [Nat.cast_sub (by omega : 1 ≤ i)]; ring
+    have : f.mesh.region.lo b + (((i - 1 : Nat) : Rat) + 1 / 2) * f.mesh.cellAt b - (f.mesh.region.lo b + (i : Rat) * f.mesh.cellAt b)
+        = -(f.mesh.cellAt b / 2) := by rw [hcast]; ring
+    rw [this, abs_neg, abs_of_pos (by linarith)]
+
+
+/-- "At ANY point", not only at cell centres: every point `p` of the half-open box of result cell `j` of
+`field[region]` is looked up by the result in cell `j` and by the source in a cell `i` holding the
+same value and validity — so `result(p) = source(p)` for every point of the result region except
+its upper faces (which the result attributes to its last cells, the source to the next ones). -/
+theorem getitem_region_anypoint (f : Fld) (hf : FldWF f) (item : Region) (hbox : BoxIn f.mesh item)
+    (g : Fld) (h : getItem f (.region item) = .ok g) (j : List Nat) (hj : inRange g.mesh.n j = true)
+    (p : List Rat) (hp : p.length = f.mesh.ndim)
+    (hin : ∀ b, b < f.mesh.ndim →
+      g.mesh.region.lo b + (j.getD b 0 : Rat) * g.mesh.cellAt b ≤ p.getD b 0 ∧
+      p.getD b 0 < g.mesh.region.lo b + ((j.getD b 0 : Rat) + 1) * g.mesh.cellAt b) :
+    ∃ i, g.mesh.point2index p = .ok j ∧ f.mesh.point2index p = .ok i ∧
+      g.data.get j = f.data.get i ∧ g.valid.get j = f.valid.get i := by
+  obtain ⟨hgm, hpt⟩ := getitem_region_pointwise f hf item hbox g h
+  obtain ⟨e1, e2, _, _, _, _, _, _, e9⟩ := getRegion_inv f.mesh hf.1 item hbox g.mesh hgm
+  obtain ⟨r1, r2⟩ := aligned_any_point f.mesh g.mesh hf.1 e1 e2 (blockLo f.mesh item)
+    (fun b => blockHi f.mesh item b - blockLo f.mesh item b + 1) (fun b hb => (e9 b hb).2.2.2) j hj p hp hin
+  obtain ⟨_, p2, p3⟩ := hpt j hj
+  exact ⟨_, r1, r2, p2, p3⟩
+
+/-- The same for a range selection: `f.sel(d=(x, y))(p) = f(p)` for every point of every half-open
+result cell. -/
+theorem sel_range_anypoint (f : Fld) (hf : f.mesh.Inv) (dim : String) (x y : Rat) (g : Fld)
+    (h : selFld f dim (.range x y) = .ok (.field g)) (j : List Nat) (hj : inRange g.mesh.n j = true)
+    (p : List Rat) (hp : p.length = f.mesh.ndim)
+    (hin : ∀ b, b < f.mesh.ndim →
+      g.mesh.region.lo b + (j.getD b 0 : Rat) * g.mesh.cellAt b ≤ p.getD b 0 ∧
+      p.getD b 0 < g.mesh.region.lo b + ((j.getD b 0 : Rat) + 1) * g.mesh.cellAt b) :
+    ∃ i, g.mesh.point2index p = .ok j ∧ f.mesh.point2index p = .ok i ∧
+      g.data.get j = f.data.get i ∧ g.valid.get j = f.valid.get i := by
+  obtain ⟨gm, _, _, hgm, hgc⟩ := selFld_ctor f dim _ g h
+  have egm := (mkFld_inv _ _ _ _ _ hgc).1
+  rw [← egm] at hgm
+  obtain ⟨a, hd, b1, b2, g1, _, _, _, g5, _, g7, g8, g9, ginv⟩ := sel_range_shape f.mesh hf dim x y g.mesh hgm
+  obtain ⟨a', hd', hpt⟩ := sel_range_pointwise f hf dim x y g h
+  rw [hd] at hd'; injection hd' with hd'; subst hd'
+  have ha := dim2index_ndim hf hd
+  obtain ⟨_, hk, hk2⟩ := selConvert_range f.mesh hf dim a hd x y b1 b2
+  have hblk : ∀ b, b < f.mesh.ndim → AxisBlock g.mesh f.mesh b b
+      (if b = a then f.mesh.indexAx a (min x y) else 0)
+      (if b = a then f.mesh.indexAx a (max x y) - f.mesh.indexAx a (min x y) + 1 else f.mesh.nAt b) := by
+    intro b hb
+    by_cases hba : b = a
+    · subst hba
+      simp only [if_true]
+      exact ⟨g5, g7, g8, by omega⟩
+    · simp only [hba, if_false]
+      obtain ⟨u1, _, u3, u4⟩ := g9 b hb hba
+      exact ⟨by rw [u1]; simp, u3, u4, by omega⟩
+  obtain ⟨r1, r2⟩ := aligned_any_point f.mesh g.mesh hf g1 (by rw [inv_n_length ginv, g1]) _ _ hblk j hj p hp hin
+  obtain ⟨q1, p2, p3⟩ := hpt j hj
+  -- both lookups of the source name the same cell
+  obtain ⟨_, _, hi1⟩ := point2index_inv f.mesh _ _ r2
+  have hjl : j.length = f.mesh.ndim := by rw [inRange_length _ _ hj, inv_n_length ginv, g1]
+  have hidx : (tab f.mesh.ndim fun b => (if b = a then f.mesh.indexAx a (min x y) else 0) + j.getD b 0)
+      = setAt j a (j.getD a 0 + f.mesh.indexAx a (min x y)) := by
+    symm
+    apply eq_tab_of_getD _ _ _ 0 (by rw [length_setAt, hjl])
+    intro b hb
+    by_cases hba : b = a
+    · subst hba
+      rw [getD_setAt_eq _ _ _ _ (by omega)]; simp; omega
+    · rw [getD_setAt_ne _ _ _ _ _ hba]; simp [hba]
+  rw [hidx] at r2
+  exact ⟨_, r1, r2, p2, p3⟩
+
+/-- The closed-form resampling the driver uses for axes of thousands of cells is the nearest-coordinate
+lookup: `resampleFast` is accepted exactly when `resample` is, and the two results have the same mesh,
+metadata, array shapes and the same value and validity in every cell. -/
+theorem resample_fast_refines (f : Fld) (hf : FldWF f) (n : List Int) :
+    ((∃ g, resample f n = .ok g) ↔ ∃ g', resampleFast f n = .ok g') ∧
+    ∀ g g', resample f n = .ok g → resampleFast f n = .ok g' →
+      g'.mesh = g.mesh ∧ g'.nvdim = g.nvdim ∧ g'.unit = g.unit ∧ g'.vdims = g.vdims ∧ g'.vmap = g.vmap ∧
+      g'.data.shape = g.data.shape ∧ g'.valid.shape = g.valid.shape ∧
+      ∀ j, inRange g.mesh.n j = true → g'.data.get j = g.data.get j ∧ g'.valid.get j = g.valid.get j := by
+  constructor
+  · unfold resample resampleFast
+    by_cases h1 : n.length ≠ f.mesh.ndim
+    · rw [if_pos h1, if_pos h1]
+    · rw [if_neg h1, if_neg h1]
+      by_cases h2 : (n.any fun k => decide (k ≤ 0)) = true
+      · rw [if_pos h2, if_pos h2]
+      · rw [if_neg h2, if_neg h2]
+        cases hm : Mesh.mkN? f.mesh.region (n.map Int.toNat) with
+        | error e => exact Iff.rfl
+        | ok m =>
+          simp only
+          by_cases h3 : (!f.mesh.region.containsReg m.region) = true
+          · rw [if_pos h3, if_pos h3]
+          · rw [if_neg h3, if_neg h3]
+            constructor
+            · rintro ⟨g, h⟩
+              obtain ⟨_, _, _, q4, q5, _, _, q8⟩ := mkFld_inv _ _ _ _ _ h
+              exact mkFld_ok m f _ _ q4 q5 (metaOk_of_eq f _ q8).1
+            · rintro ⟨g, h⟩
+              obtain ⟨_, _, _, q4, q5, _, _, q8⟩ := mkFld_inv _ _ _ _ _ h
+              exact mkFld_ok m f _ _ q4 q5 (metaOk_of_eq f _ q8).1
+  · intro g g' hg hg'
+    have hsrc := resample_source_cell f hf n g hg
+    obtain ⟨m, d, v, hm, hc⟩ := resample_ctor f n g hg
+    obtain ⟨p1, p2, p3, p4, p5, p6, p7, p8⟩ := mkFld_inv _ _ _ _ _ hc
+    unfold resampleFast at hg'
+    split at hg'
+    · cases hg'
+    · split at hg'
+      · cases hg'
+      · split at hg'
+        · cases hg'
+        · rename_i m' hm'
+          have hm2 : Mesh.mkN? f.mesh.region (n.map Int.toNat) = .ok m := hm
+          rw [hm2] at hm'
+          injection hm' with hm'
+          subst hm'
+          split at hg'
+          · cases hg'
+          · obtain ⟨q1, q2, q3, q4, q5, q6, q7, q8⟩ := mkFld_inv _ _ _ _ _ hg'
+            have hmeta : (g'.vdims, g'.vmap) = (g.vdims, g.vmap) := by
+              have := q8.symm.trans p8
+              injection this
+            injection hmeta with hv1 hv2
+            refine ⟨by rw [q1, p1], by rw [q6, p6], by rw [q7, p7], hv1, hv2, ?_, ?_, ?_⟩
+            · rw [q2, p2]; exact q4.trans p4.symm
+            · rw [q3, p3]; exact q5.trans p5.symm
+            · intro j hj
+              obtain ⟨s1, s2⟩ := hsrc j hj
+              rw [s1, s2, q2, q3, p1]
+              exact ⟨rfl, rfl⟩
+
+
+/-! ## Non-vacuity of the second round -/
+section NonVacuity2
+open Ex
+
+/-- hypotheses shared by the equivalences and the laws on inputs: `f1` — a subregion, a chequered
+mask — is well formed, in constructor state, and its subregions consist of whole cells -/
+example : FldWF f1 ∧ metaOk f1 = true ∧ MetaInv f1 ∧ SubsAligned f1.mesh :=
+  ⟨f1_wf, rfl, rfl, m1_subs_aligned⟩
+
+/-- both sides of `sel_plane_ok_iff` / `sel_range_ok_iff` occur on `f1`: `x = 5/2` is accepted,
+`x = 9/2` refused; the range `[7/2, 1/2]` accepted -/
+example : (∃ o, selFld f1 "x" (.point (5/2)) = .ok o) ∧ (¬ ∃ o, selFld f1 "x" (.point (9/2)) = .ok o) ∧
+    ∃ g, selFld f1 "x" (.range (7/2) (1/2)) = .ok (.field g) := by
+  have hd : f1.mesh.region.dim2index "x" = .ok 0 := by decide
+  refine ⟨(sel_plane_ok_iff f1 f1_wf rfl m1_subs_aligned "x" (5/2)).2.1.mpr ⟨0, hd,
+      by norm_num [f1, f0, m1, m0, reg, Region.lo], by norm_num [f1, f0, m1, m0, reg, Region.hi]⟩, ?_,
+    (sel_range_ok_iff f1 f1_wf rfl m1_subs_aligned "x" (7/2) (1/2)).2.2.mpr ⟨0, hd,
+      by norm_num [f1, f0, m1, m0, reg, Region.lo], by norm_num [f1, f0, m1, m0, reg, Region.hi]⟩⟩
+  intro hc
+  obtain ⟨a, hda, _, h2⟩ := (sel_plane_ok_iff f1 f1_wf rfl m1_subs_aligned "x" (9/2)).2.1.mp hc
+  rw [hd] at hda; injection hda with hda; subst hda
+  norm_num [f1, f0, m1, m0, reg, Region.hi] at h2
+
+/-- both sides of `resample_ok_iff`, `pad_ok_iff`, `getitem_name_ok_iff` occur -/
+example : (∃ g, resample f1 [2, 3] = .ok g) ∧ (¬ ∃ g, resample f1 [2, 0] = .ok g) ∧
+    (∃ g, getItem f1 (.name "a") = .ok g) ∧ (¬ ∃ g, getItem f1 (.name "b") = .ok g) ∧
+    (∃ g, padFld f0 pw0 .reflect = .ok g) ∧ ¬ ∃ g, padFld f0 [⟨"x", -1, 1⟩] .reflect = .ok g := by
+  have hbc : Mesh.bcOk f0.mesh.region.dims f0.mesh.bc.toLower = true := by
+    rw [show f0.mesh.bc = "" from rfl, emptyLower]; exact bcOk_empty _
+  refine ⟨(resample_ok_iff f1 f1_wf.1 rfl [2, 3]).mpr ⟨rfl, by decide⟩, ?_,
+    (getitem_name_ok_iff f1 f1_wf rfl m1_subs_aligned "a").2.mpr ⟨s0, rfl⟩, ?_,
+    (pad_ok_iff f0 f0_wf rfl pw0 (by decide) hbc .reflect).mpr ?_, ?_⟩
+  · intro hc
+    obtain ⟨_, h⟩ := (resample_ok_iff f1 f1_wf.1 rfl [2, 0]).mp hc
+    exact absurd (h 0 (by decide)) (by decide)
+  · intro hc
+    obtain ⟨s, hs⟩ := (getitem_name_ok_iff f1 f1_wf rfl m1_subs_aligned "b").2.mp hc
+    have : findSub f1.mesh.subs "b" = none := by decide
+    rw [this] at hs; cases hs
+  · intro w hw
+    simp only [pw0, List.mem_cons, List.mem_nil_iff, or_false] at hw
+    rcases hw with rfl | rfl
+    · exact ⟨⟨0, by decide⟩, by decide, by decide⟩
+    · exact ⟨⟨1, by decide⟩, by decide, by decide⟩
+  · intro hc
+    have := ((pad_ok_iff f0 f0_wf rfl [⟨"x", -1, 1⟩] (by decide) hbc .reflect).mp hc) ⟨"x", -1, 1⟩
+      (List.mem_cons_self ..)
+    exact absurd this.2.1 (by decide)
+
+/-- hypotheses of `sel_range_range_total` on `f1` (with its subregion): the range `[1/2, 7/2]`, then
+the sub-range `[5/2, 3/2]` given in descending order -/
+example : ∃ g h h', selFld f1 "x" (.range (1/2) (7/2)) = .ok (.field g) ∧
+    selFld g "x" (.range (5/2) (3/2)) = .ok (.field h) ∧ selFld f1 "x" (.range (5/2) (3/2)) = .ok (.field h') := by
+  obtain ⟨g, h, h', r1, r2, r3, _⟩ := sel_range_range_total f1 f1_wf rfl m1_subs_aligned "x" 0 (by decide)
+    (1/2) (7/2) (5/2) (3/2) (by norm_num [f1, f0, m1, m0, reg, Region.lo])
+    (by norm_num [f1, f0, m1, m0, reg, Region.hi]) (by norm_num) (by norm_num)
+  exact ⟨g, h, h', r1, r2, r3⟩
+
+/-- hypotheses of `sel_range_range_face` on `f0`: cells 0..1 first, then `[1, 2]` whose upper bound is
+the upper face `x = 2` of the first selection -/
+example : ∃ g h h', selFld f0 "x" (.range (1/2) (3/2)) = .ok (.field g) ∧
+    selFld g "x" (.range 1 2) = .ok (.field h) ∧ selFld f0 "x" (.range 1 2) = .ok (.field h') ∧
+    h'.mesh.nAt 0 = h.mesh.nAt 0 + 1 := by
+  have e1 : f0.mesh.indexAx 0 (min (1/2 : Rat) (3/2)) = 0 := by
+    rw [show min (1/2 : Rat) (3/2) = 1/2 by norm_num]
+    exact ex_idx _ 0 (by decide) (by norm_num) (by norm_num)
+  have e2 : f0.mesh.indexAx 0 (max (1/2 : Rat) (3/2)) = 1 := by
+    rw [show max (1/2 : Rat) (3/2) = 3/2 by norm_num]
+    exact ex_idx _ 1 (by decide) (by norm_num) (by norm_num)
+  obtain ⟨g, h, h', r1, r2, r3, _, _, _, r7, _⟩ := sel_range_range_face f0 f0_wf rfl (by intro p hp; cases hp)
+    "x" 0 (by decide) (1/2) (3/2) 1 2 (by norm_num [f0, m0, reg, Region.lo])
+    (by norm_num [f0, m0, reg, Region.hi])
+    (by rw [e1]; norm_num [f0, m0, reg, Region.lo, Mesh.cellAt, Mesh.nAt, Region.edge, Region.hi])
+    (by norm_num)
+    (by rw [e2]; norm_num [f0, m0, reg, Region.lo, Mesh.cellAt, Mesh.nAt, Region.edge, Region.hi])
+    (by norm_num [f0, m0, reg, Region.hi])
+  exact ⟨g, h, h', r1, r2, r3, r7⟩
+
+/-- hypotheses of `sel_plane_comm_total` (and `sel_plane_result_subs`): the 2 × 2 × 2 field `f3` -/
+example : ∃ g1 h1 g2 h2, selFld f3 "x" (.point (1/2)) = .ok (.field g1) ∧
+    selFld g1 "y" (.point (3/2)) = .ok (.field h1) ∧ selFld f3 "y" (.point (3/2)) = .ok (.field g2) ∧
+    selFld g2 "x" (.point (1/2)) = .ok (.field h2) := by
+  obtain ⟨g1, h1, g2, h2, e1, e2, e3, e4, _⟩ := sel_plane_comm_total f3 f3_wf rfl (by intro p hp; cases hp)
+    (by decide) "x" "y" 0 1 (by decide) (by decide) (by decide) (1/2) (3/2)
+    ⟨by norm_num [f3, m3, reg3, Region.lo], by norm_num [f3, m3, reg3, Region.hi]⟩
+    ⟨by norm_num [f3, m3, reg3, Region.lo], by norm_num [f3, m3, reg3, Region.hi]⟩
+  exact ⟨g1, h1, g2, h2, e1, e2, e3, e4⟩
+
+/-- hypotheses of `getitem_getitem_total`: the box `box` of `f0` and the box `[1,2] × [1/2,1]` inside it -/
+example : ∃ g h h', getItem f0 (.region box) = .ok g ∧ getItem g (.region (reg [1, 1/2] [2, 1])) = .ok h ∧
+    getItem f0 (.region (reg [1, 1/2] [2, 1])) = .ok h' := by
+  obtain ⟨g, h, h', r1, r2, r3, _⟩ := getitem_getitem_total f0 f0_wf rfl box (reg [1, 1/2] [2, 1]) box_in rfl rfl rfl
+    (by
+      intro a ha
+      rcases lt_two a ha with rfl | rfl <;> norm_num [box, reg, Region.lo, Region.hi])
+  exact ⟨g, h, h', r1, r2, r3⟩
+
+/-- hypotheses of `pad_crop_total`, in every mode -/
+example (mode : PadMode) : ∃ g h, padFld f0 pw0 mode = .ok g ∧ getItem g (.region f0.mesh.region) = .ok h := by
+  obtain ⟨g, h, r1, r2, _⟩ := pad_crop_total f0 f0_wf rfl pw0 (by decide)
+    (by
+      intro w hw
+      simp only [pw0, List.mem_cons, List.mem_nil_iff, or_false] at hw
+      rcases hw with rfl | rfl
+      · exact ⟨0, by decide⟩
+      · exact ⟨1, by decide⟩)
+    (by
+      intro w hw
+      simp only [pw0, List.mem_cons, List.mem_nil_iff, or_false] at hw
+      rcases hw with rfl | rfl <;> decide)
+    (by rw [show f0.mesh.bc = "" from rfl, emptyLower]; exact bcOk_empty _) mode
+  exact ⟨g, h, r1, r2⟩
+
+/-- hypotheses of `resample_via_refinement_total` / `resample_id_total`: refine 4 × 2 by 2 × 2, then go to
+the coprime counts 3 × 1 -/
+example : ∃ g k k', resample f0 (tab f0.mesh.ndim fun b => (((fun _ => 2) b * f0.mesh.nAt b : Nat) : Int)) = .ok g ∧
+    resample g [3, 1] = .ok k ∧ resample f0 [3, 1] = .ok k' := by
+  obtain ⟨g, k, k', r1, r2, r3, _⟩ := resample_via_refinement_total f0 f0_wf rfl (fun _ => 2) (fun _ _ => by decide)
+    [3, 1] rfl (by decide)
+  exact ⟨g, k, k', r1, r2, r3⟩
+
+/-- hypothesis of `pad_reflect_pointwise`: every axis of `f0` has at least two cells; of
+`pad_constant_pointwise`: cell `[0, 0]` of the padded field lies in front of the source along `x` -/
+example : (∀ b, b < f0.mesh.ndim → 2 ≤ f0.mesh.nAt b) ∧
+    ¬ ((sumW f0.mesh (·.lo) pw0 0).toNat ≤ [0, 0].getD 0 0 ∧
+      [0, 0].getD 0 0 < (sumW f0.mesh (·.lo) pw0 0).toNat + f0.mesh.nAt 0) :=
+  ⟨fun b hb => by rcases lt_two b hb with rfl | rfl <;> decide, by decide⟩
+
+/-- hypotheses of `getitem_name_eq_region`: the stored subregion `a` of `f1` -/
+example : getItem f1 (.name "a") = getItem f1 (.region s0) :=
+  (getitem_name_eq_region f1 f1_wf "a" s0 rfl k1 k2 s0_aligned rfl rfl rfl).2
+
+/-- hypotheses of `region2slices_mono` and `region2slices_cells`: the subregion `s0` inside the whole region -/
+example : (∃ s1 s2, region2slices m1 s0 = .ok s1 ∧ region2slices m1 m1.region = .ok s2 ∧
+      ∀ a, a < m1.ndim → m1.region.lo a ≤ s0.lo a ∧ s0.hi a ≤ m1.region.hi a) ∧
+    (m1.region.lo 0 ≤ s0.lo 0 + m1.cellAt 0 / 2 ∧ s0.lo 0 + m1.cellAt 0 / 2 < m1.region.hi 0) ∧
+    (m1.region.lo 0 ≤ s0.hi 0 - m1.cellAt 0 / 2 ∧ s0.hi 0 - m1.cellAt 0 / 2 ≤ m1.region.hi 0) := by
+  refine ⟨⟨_, _, (region2slices_spec m1 m1_inv s0 k1 k2 s0_aligned).1, region2slices_whole m1 m1_inv, ?_⟩, ?_, ?_⟩
+  · intro a ha
+    rcases lt_two a ha with rfl | rfl <;> norm_num [m1, m0, s0, reg, Region.lo, Region.hi]
+  · norm_num [m1, m0, s0, reg, Region.lo, Region.hi, Mesh.cellAt, Mesh.nAt, Region.edge]
+  · norm_num [m1, m0, s0, reg, Region.lo, Region.hi, Mesh.cellAt, Mesh.nAt, Region.edge]
+
+/-- hypotheses of `sel_nonfinite_rejected`: a point at `nan`, a range ending at `+inf` -/
+example : (SelArgE.point .nan).NonFinite ∧ (SelArgE.range (.fin 1) .posInf).NonFinite :=
+  ⟨fun _ h => ExtRat.noConfusion h, Or.inr (fun _ h => ExtRat.noConfusion h)⟩
+
+/-- hypotheses of `getitem_nonfinite_rejected`: `Region(p1=(0, 0), p2=(inf, 1))` is built … -/
+example : boxMkE? [.fin 0, .fin 0] [.posInf, .fin 1] = .ok ([.fin 0, .fin 0], [.posInf, .fin 1]) := by
+  decide
+
+/-- … the extended model is not trivial on finite values: `sorted` puts the bounds in order -/
+example : sort2 (.fin 3) (.fin (1/2)) = (.fin (1/2), .fin 3) := by
+  rw [sort2_fin, show min (3 : Rat) (1/2) = 1/2 by norm_num, show max (3 : Rat) (1/2) = 3 by norm_num]
+
+/-- the hypothesis on `p` of `getitem_region_anypoint` / `sel_range_anypoint` is met by every cell centre
+(and by the whole half-open cell around it) -/
+example (g : Mesh) (hg : g.Inv) (j : List Nat) (b : Nat) (hb : b < g.ndim) :
+    g.region.lo b + (j.getD b 0 : Rat) * g.cellAt b ≤ (g.centre j).getD b 0 ∧
+    (g.centre j).getD b 0 < g.region.lo b + ((j.getD b 0 : Rat) + 1) * g.cellAt b := by
+  rw [centre_getD g j b hb, centreAx_cast]
+  have := inv_cell_pos hg hb
+  constructor <;> nlinarith
+
+/-- both sides of `resample_fast_refines` are inhabited: 4 × 2 -> 3 × 5 -/
+example : (∃ g, resample f0 [3, 5] = .ok g) ∧ ∃ g', resampleFast f0 [3, 5] = .ok g' := by
+  have h := resample_accepts f0 f0_wf.1 rfl [3, 5] rfl (by decide)
+  exact ⟨h, (resample_fast_refines f0 f0_wf [3, 5]).1.mp h⟩
+
+/-- hypotheses of `pad_crop_smaller`: `pw0` pads x by (1, 2) and y by (0, 1); the smaller padding pads x by (1, 0) -/
+example (mode : PadMode) : ∃ g g', padFld f0 pw0 mode = .ok g ∧ padFld f0 [⟨"x", 1, 0⟩] mode = .ok g' ∧
+    ∀ b, b < f0.mesh.ndim → sumW f0.mesh (·.lo) [⟨"x", 1, 0⟩] b ≤ sumW f0.mesh (·.lo) pw0 b ∧
+      sumW f0.mesh (·.hi) [⟨"x", 1, 0⟩] b ≤ sumW f0.mesh (·.hi) pw0 b := by
+  have hbc : Mesh.bcOk f0.mesh.region.dims f0.mesh.bc.toLower = true := by
+    rw [show f0.mesh.bc = "" from rfl, emptyLower]; exact bcOk_empty _
+  obtain ⟨g, hg⟩ := (pad_ok_iff f0 f0_wf rfl pw0 (by decide) hbc mode).mpr (by
+    intro w hw
+    simp only [pw0, List.mem_cons, List.mem_nil_iff, or_false] at hw
+    rcases hw with rfl | rfl
+    · exact ⟨⟨0, by decide⟩, by decide, by decide⟩
+    · exact ⟨⟨1, by decide⟩, by decide, by decide⟩)
+  obtain ⟨g', hg'⟩ := (pad_ok_iff f0 f0_wf rfl [⟨"x", 1, 0⟩] (by decide) hbc mode).mpr (by
+    intro w hw
+    simp only [List.mem_cons, List.mem_nil_iff, or_false] at hw
+    subst hw
+    exact ⟨⟨0, by decide⟩, by decide, by decide⟩)
+  refine ⟨g, g', hg, hg', ?_⟩
+  intro b hb
+  rcases lt_two b hb with rfl | rfl <;> decide
+
+/-- hypotheses of `resample_tie`: 4 × 2 -> 2 × 1, the centre `x = 1` of target cell 0 is the face between
+source cells 0 and 1 -/
+example : ∃ g, resample f0 [2, 1] = .ok g ∧
+    g.mesh.centreAx 0 ((([0, 0] : List Nat).getD 0 0 : Nat) : Int)
+      = f0.mesh.region.lo 0 + ((1 : Nat) : Rat) * f0.mesh.cellAt 0 := by
+  obtain ⟨g, hg⟩ := resample_accepts f0 f0_wf.1 rfl [2, 1] rfl (by decide)
+  obtain ⟨r1, r2, _, _⟩ := resample_region f0 _ g hg
+  refine ⟨g, hg, ?_⟩
+  unfold Mesh.centreAx Mesh.cellAt Mesh.nAt Region.edge
+  rw [r1, r2]
+  have e : List.map Int.toNat [2, 1] = [2, 1] := rfl
+  rw [e]
+  norm_num [f0, m0, reg, Region.lo, Region.hi]
+
+end NonVacuity2
 
 end DFV.C07
